@@ -581,3 +581,1620 @@ Section Access.
   Qed.
 End Access.
 
+
+(* ====================================================================================== *)
+(** * 4. Pieces of the constructor *)
+
+Lemma bind_ok {X Y} (x : res X) (f : X -> res Y) y :
+  bind x f = Ok y <-> exists a, x = Ok a /\ f a = Ok y.
+Proof.
+  destruct x as [a|e]; cbn [bind]; split.
+  - intros H. exists a. auto.
+  - intros (a' & E & H). injection E as <-. exact H.
+  - discriminate.
+  - intros (a' & E & _). discriminate.
+Qed.
+
+(* what a caller's key denotes: an int is itself, a string is looked up in canon2bin *)
+Definition key_denotes (A : alg) (k : key) (z : Z) : Prop :=
+  match k with KInt z' => z = z' | KName n => canon2bin A n = Some z end.
+
+Section Pieces.
+  Variable A : alg.
+  Hypothesis Hwf : wf_alg A = true.
+  Local Notation L := (alg_len A).
+
+  Lemma conv_key_denotes k z : conv_key A k = Ok z -> key_denotes A k z /\ 0 <= z < L.
+  Proof.
+    destruct k as [z'|n]; cbn [conv_key key_denotes].
+    - destruct (bin2canon A z') as [c|] eqn:E; [|discriminate]. intros H. injection H as <-.
+      split; [reflexivity | apply (bin2canon_range A Hwf z' c E)].
+    - destruct (canon2bin A n) as [b|] eqn:E; cbn [of_opt]; [|discriminate]. intros H. injection H as <-.
+      split; [reflexivity|]. unfold canon2bin in E. apply find_by_name_In in E.
+      apply (c2b_entry_spec A Hwf n b E).
+  Qed.
+
+  Lemma denotes_conv_key k z : key_denotes A k z -> 0 <= z < L -> conv_key A k = Ok z.
+  Proof.
+    destruct k as [z'|n]; cbn [conv_key key_denotes].
+    - intros -> Hr. destruct (bin2canon_total A Hwf z' Hr) as (c & Hc & _). rewrite Hc. reflexivity.
+    - intros -> _. reflexivity.
+  Qed.
+
+  Lemma all_int_denotes ks : forallb is_int ks = true -> Forall2 (key_denotes A) ks (map raw_int ks).
+  Proof.
+    induction ks as [|[z|n] r IH]; cbn [forallb is_int map raw_int andb]; intros H.
+    - constructor.
+    - constructor; [reflexivity | apply IH; exact H].
+    - discriminate.
+  Qed.
+
+  (* the sanitation never invents a key *)
+  Theorem sanitize_denotes ks zs : sanitize A ks = Ok zs -> Forall2 (key_denotes A) ks zs.
+  Proof.
+    unfold sanitize. destruct (forallb is_int ks) eqn:E.
+    - intros H. injection H as <-. apply all_int_denotes. exact E.
+    - intros H. apply mapM_res_inv in H. clear E. induction H as [|k z ks zs Hk _ IH]; [constructor|].
+      constructor; [apply (conv_key_denotes k z Hk) | exact IH].
+  Qed.
+
+  Lemma denotes_functional ks zs zs' :
+    Forall2 (key_denotes A) ks zs -> Forall2 (key_denotes A) ks zs' -> zs = zs'.
+  Proof.
+    intros H. revert zs'. induction H as [|k z ks zs Hk _ IH]; intros zs' H'; inversion H'; subst; [reflexivity|].
+    f_equal; [|apply IH; assumption].
+    destruct k; cbn [key_denotes] in *; congruence.
+  Qed.
+
+  Lemma sanitize_ints zs : sanitize A (map KInt zs) = Ok zs.
+  Proof.
+    unfold sanitize. assert (H : forallb is_int (map KInt zs) = true) by (induction zs; [reflexivity | exact IHzs]).
+    rewrite H. f_equal. rewrite map_map. cbn [raw_int]. apply map_id.
+  Qed.
+
+  (* the unconditional conversion of the graded Mapping branch agrees with the sanitation on keys of
+     the algebra *)
+  Lemma mapM_conv_sanitize ks zs : mapM_res (conv_key A) ks = Ok zs ->
+    sanitize A ks = Ok zs /\ forall z, In z zs -> 0 <= z < L.
+  Proof.
+    intros H. pose proof (mapM_res_inv _ _ _ H) as HF. split.
+    - unfold sanitize. destruct (forallb is_int ks) eqn:E; [|exact H]. f_equal.
+      apply (denotes_functional ks); [apply all_int_denotes; exact E|].
+      clear H E. induction HF as [|k z ks zs Hk _ IH]; [constructor|].
+      constructor; [apply (conv_key_denotes k z Hk) | exact IH].
+    - clear H. induction HF as [|k z ks zs Hk _ IH]; intros z' Hz'; [destruct Hz'|].
+      destruct Hz' as [<-|Hz']; [apply (conv_key_denotes k z Hk) | apply IH; assumption].
+  Qed.
+
+  Lemma sanitize_mapM_conv ks zs : sanitize A ks = Ok zs -> (forall z, In z zs -> 0 <= z < L) ->
+    mapM_res (conv_key A) ks = Ok zs.
+  Proof.
+    intros H Hr. apply sanitize_denotes in H. apply mapM_res_of_Forall2.
+    induction H as [|k z ks zs Hk _ IH]; [constructor|]. constructor.
+    - apply denotes_conv_key; [exact Hk | apply Hr; left; reflexivity].
+    - apply IH. intros z' Hz'. apply Hr. right. exact Hz'.
+  Qed.
+
+  Lemma sanitize_length ks zs : sanitize A ks = Ok zs -> length zs = length ks.
+  Proof.
+    intros H. apply sanitize_denotes in H. induction H as [|k z ks' zs' _ _ IH]; [reflexivity|].
+    cbn [length]. rewrite IH. reflexivity.
+  Qed.
+
+  (* the sanitation fails only with KeyError, and only on a string that is no table name or (in a
+     list that contains a string) an int that is no key *)
+  Theorem sanitize_err ks e : sanitize A ks = Err e ->
+    e = EKey /\ exists k, In k ks /\ forall z, ~ (key_denotes A k z /\ 0 <= z < L).
+  Proof.
+    unfold sanitize. destruct (forallb is_int ks); [discriminate|].
+    induction ks as [|k r IH]; cbn [mapM_res]; [discriminate|].
+    destruct (conv_key A k) as [z|e'] eqn:Ek; cbn [bind].
+    - destruct (mapM_res (conv_key A) r) as [zs|e'] eqn:Er; cbn [bind]; [discriminate|].
+      intros H. injection H as <-. destruct (IH eq_refl) as [-> (k' & Hk' & Hb)].
+      split; [reflexivity|]. exists k'. split; [right; exact Hk' | exact Hb].
+    - intros H. injection H as <-. split.
+      + destruct k as [z|n]; cbn [conv_key] in Ek.
+        * destruct (bin2canon A z); [discriminate | congruence].
+        * destruct (canon2bin A n); cbn [of_opt] in Ek; [discriminate | congruence].
+      + exists k. split; [left; reflexivity|]. intros z [Hd Hr].
+        rewrite (denotes_conv_key k z Hd Hr) in Ek. discriminate.
+  Qed.
+End Pieces.
+
+(* ---------------- grades ---------------- *)
+Lemma zinsert_in x l y : In y (zinsert x l) <-> y = x \/ In y l.
+Proof.
+  induction l as [|z r IH]; cbn [zinsert].
+  - cbn [In]. intuition.
+  - destruct (x <? z); [cbn [In]; intuition|]. destruct (Z.eqb_spec x z) as [->|Hne]; cbn [In].
+    + intuition.
+    + rewrite IH. intuition.
+Qed.
+
+Lemma grades_of_keys_in ks x : In x (grades_of_keys ks) <-> exists k, In k ks /\ x = popcount k.
+Proof.
+  unfold grades_of_keys.
+  assert (H : forall acc, In x (fold_left (fun acc k => zinsert (popcount k) acc) ks acc)
+                          <-> In x acc \/ exists k, In k ks /\ x = popcount k).
+  { induction ks as [|k r IH]; intros acc; cbn [fold_left].
+    - split; [auto | intros [H|(k & [] & _)]; exact H].
+    - rewrite IH, zinsert_in. split.
+      + intros [[->|H]|(k' & Hk' & E)]; [right; exists k; split; [left|]; reflexivity | left; exact H
+                                         | right; exists k'; split; [right; exact Hk' | exact E]].
+      + intros [H|(k' & [<-|Hk'] & E)]; [left; right; exact H | left; left; exact E | right; exists k'; auto]. }
+  rewrite H. cbn [In]. intuition.
+Qed.
+
+Section Grades.
+  Variable A : alg.
+  Hypothesis Hwf : wf_alg A = true.
+  Local Notation L := (alg_len A).
+
+  Lemma ifg_inv g full : ifg A g = Ok full ->
+    grades_ok A (map Z.to_nat g) = true /\ full = flat_map (indices_for_grade A) (map Z.to_nat g).
+  Proof.
+    unfold ifg, indices_for_grades, grades_ok.
+    destruct (strictly_inc (map Z.to_nat g) && forallb (fun g0 => Nat.leb g0 (a_d A)) (map Z.to_nat g));
+      [|discriminate]. intros H. injection H as <-. split; reflexivity.
+  Qed.
+
+  Lemma ifg_ok g : grades_ok A (map Z.to_nat g) = true ->
+    ifg A g = Ok (flat_map (indices_for_grade A) (map Z.to_nat g)).
+  Proof. unfold ifg, indices_for_grades, grades_ok. intros ->. reflexivity. Qed.
+
+  Lemma ifg_in g full k : ifg A g = Ok full ->
+    (In k full <-> 0 <= k < L /\ grade_in (map Z.to_nat g) k = true).
+  Proof.
+    intros H. apply ifg_inv in H. destruct H as [_ ->]. pose proof (wf_sign_hyps A Hwf) as Hs.
+    apply (in_indices_for_grades A (sh_keys A Hs) (sh_grade A Hs)).
+  Qed.
+
+  Lemma ifg_nodup g full : ifg A g = Ok full -> NoDup full.
+  Proof.
+    intros H. apply ifg_inv in H. destruct H as [Hok ->]. pose proof (wf_sign_hyps A Hwf) as Hs.
+    apply (NoDup_indices_for_grades A (sh_keys A Hs) (sh_nodup A Hs) (sh_grade A Hs)).
+    unfold grades_ok in Hok. apply andb_prop in Hok. apply Hok.
+  Qed.
+
+  Lemma ifg_range_computed zs full : ifg A (grades_of_keys zs) = Ok full ->
+    grade_range_ok A (grades_of_keys zs) = true.
+  Proof.
+    intros H. apply ifg_inv in H. destruct H as [Hok _]. unfold grades_ok in Hok.
+    apply andb_prop in Hok. destruct Hok as [_ Hle]. rewrite forallb_forall in Hle.
+    unfold grade_range_ok. apply forallb_forall. intros x Hx.
+    assert (Hnn : 0 <= x).
+    { apply grades_of_keys_in in Hx. destruct Hx as (k & _ & ->). apply popcount_nonneg. }
+    specialize (Hle (Z.to_nat x) (in_map Z.to_nat _ x Hx)). apply Nat.leb_le in Hle.
+    apply andb_true_intro. split; [apply Z.leb_le; exact Hnn | apply Z.leb_le; lia].
+  Qed.
+
+  (* an in-range key belongs to the complete grades computed from any key list that contains it *)
+  Lemma key_in_own_grades zs full k : ifg A (grades_of_keys zs) = Ok full -> In k zs -> 0 <= k < L -> In k full.
+  Proof.
+    intros H Hk Hr. apply (ifg_in _ _ k H). split; [exact Hr|]. unfold grade_in. apply existsb_exists.
+    exists (Z.to_nat (popcount k)). split.
+    - apply in_map. apply grades_of_keys_in. exists k. auto.
+    - unfold grade. rewrite Z2Nat.id by apply popcount_nonneg. apply Z.eqb_refl.
+  Qed.
+
+  Lemma all_grades_ifg : ifg A (map Z.of_nat (all_grades A)) = Ok (canon_keys A).
+  Proof.
+    unfold ifg. rewrite map_map. rewrite (map_ext _ (fun x => x)) by (intros; apply Nat2Z.id).
+    rewrite map_id. apply (full_grades_canon A Hwf).
+  Qed.
+
+  Lemma all_grades_range : grade_range_ok A (map Z.of_nat (all_grades A)) = true.
+  Proof.
+    unfold grade_range_ok, all_grades. apply forallb_forall. intros x Hx. apply in_map_iff in Hx.
+    destruct Hx as (g & <- & Hg). apply in_seq in Hg. apply andb_true_intro.
+    split; apply Z.leb_le; lia.
+  Qed.
+End Grades.
+
+(* ====================================================================================== *)
+(** * 5. The constructor, form by form *)
+
+Section Build.
+  Variable R : Type.
+  Variables (rO rI : R) (radd rmul rsub : R -> R -> R) (ropp : R -> R).
+  Hypothesis Rth : ring_theory rO rI radd rmul rsub ropp (@eq R).
+  Add Ring Rring15b : Rth.
+  Local Notation O := (mkOps R radd rsub rmul ropp rO rI).
+  Variable A : alg.
+  Hypothesis Hwf : wf_alg A = true.
+  Variable sym : Z -> R.
+  Local Notation L := (alg_len A).
+
+  (* the grades the constructor works with: the declared ones, else [dflt] *)
+  Definition declared (g0 : option (list Z)) (dflt : list Z) : list Z :=
+    match g0 with Some g => g | None => dflt end.
+
+  (* [core] = the computation of the grades, then the rest *)
+  Definition grades_step (keys1 : option (list Z)) (nm : bool) (g0 : option (list Z)) : res (list Z) :=
+    match (match g0, nm, keys1 with
+           | None, true, Some zs => Some (grades_of_keys zs)
+           | g, _, _ => g
+           end) with
+    | Some g => if grade_range_ok A g then Ok g else Err EValue
+    | None => Ok (match (match keys1 with Some zs => zs | None => [] end) with
+                  | [] => map Z.of_nat (all_grades A)
+                  | _ => grades_of_keys (match keys1 with Some zs => zs | None => [] end)
+                  end)
+    end.
+
+  Definition core_tail (keys : list Z) (values0 : vals R) (nm : bool) (grades : list Z) : res (mv R) :=
+    chk <- (if a_graded A && negb (isnil keys)
+            then full <- ifg A grades ;; if list_eqb Z.eqb keys full then Ok tt else Err EValue
+            else Ok tt) ;;
+    '(keysk, values) <-
+       (match values0 with
+        | VMap mp =>
+            if a_graded A && negb (isnil mp) then
+              zs <- mapM_res (conv_key A) (map fst mp) ;;
+              full <- ifg A (grades_of_keys zs) ;;
+              if list_eqb Z.eqb zs full then Ok (map KInt zs, map snd mp) else Err EValue
+            else Ok (map fst mp, map snd mp)
+        | _ =>
+            let vs := match values0 with VList l => l | _ => [] end in
+            full <- ifg A grades ;;
+            if Nat.eqb (length vs) (length full) && isnil keys then Ok (map KInt full, vs)
+            else if nm && isnil vs then
+              let ks := if isnil keys then full else keys in
+              vs' <- mapM_res (fun k => match bin2canon A k with Some _ => Ok (sym k) | None => Err EKey end) ks ;;
+              Ok (map KInt ks, vs')
+            else if Nat.eqb (length keys) (length vs) then Ok (map KInt keys, vs)
+            else Err EType
+        end) ;;
+    keys8 <- sanitize A keysk ;;
+    full <- ifg A grades ;;
+    if forallb (fun k => zin k full) keys8 then Ok (combine keys8 values) else Err EValue.
+
+  Lemma core_split keys1 values0 nm g0 :
+    core A sym keys1 values0 nm g0
+    = bind (grades_step keys1 nm g0)
+           (core_tail (match keys1 with Some zs => zs | None => [] end) values0 nm).
+  Proof. reflexivity. Qed.
+
+  (* ---------------- keys given (keys= or keyword blades), values given ---------------- *)
+
+  Lemma core_tail_keyed zs vs nm G m : zs <> [] -> (nm = false \/ vs <> []) ->
+    (core_tail zs (VList vs) nm G = Ok m <->
+     exists full, ifg A G = Ok full /\ length zs = length vs /\ incl zs full
+                  /\ (a_graded A = true -> zs = full) /\ m = combine zs vs).
+  Proof.
+    intros Hzs Hnv. unfold core_tail.
+    assert (Hn1 : isnil zs = false) by (apply isnil_false; exact Hzs).
+    assert (Hn2 : nm && isnil vs = false).
+    { destruct Hnv as [->|Hv]; [reflexivity|]. apply isnil_false in Hv. rewrite Hv. apply andb_false_r. }
+    rewrite Hn1. cbn [negb]. rewrite andb_true_r.
+    destruct (ifg A G) as [full|e] eqn:Ef.
+    2:{ split; [|intros (full & H & _); discriminate].
+        destruct (a_graded A); cbn [bind]; discriminate. }
+    cbn [bind]. rewrite andb_false_r, Hn2.
+    assert (Hrest : forall keysk values,
+              (keysk, values) = (map KInt zs, vs) ->
+              ((keys8 <- sanitize A keysk ;; full0 <- Ok full ;;
+                (if forallb (fun k => zin k full0) keys8 then Ok (combine keys8 values) else Err EValue)) = Ok m
+               <-> incl zs full /\ m = combine zs vs)).
+    { intros keysk values E. injection E as -> ->. rewrite sanitize_ints. cbn [bind].
+      destruct (forallb (fun k => zin k full) zs) eqn:Ei.
+      - apply forallb_zin_incl in Ei. split; [intros H; injection H as <-; auto | intros [_ ->]; reflexivity].
+      - split; [discriminate|]. intros [Hi _]. apply forallb_zin_incl in Hi. congruence. }
+    destruct (a_graded A) eqn:Eg.
+    - destruct (list_eqb Z.eqb zs full) eqn:Ee; cbn [bind].
+      + apply list_eqb_Z_eq in Ee.
+        destruct (Nat.eqb_spec (length zs) (length vs)) as [El|El]; cbn [bind].
+        * rewrite (Hrest _ _ eq_refl). split.
+          -- intros [Hi ->]. exists full. repeat split; auto.
+          -- intros (full' & E & _ & Hi & _ & ->). injection E as <-. auto.
+        * split; [discriminate|]. intros (full' & _ & Hl & _). contradiction.
+      + split; [discriminate|]. intros (full' & E & _ & _ & Hg & _). injection E as <-.
+        rewrite (Hg eq_refl) in Ee. rewrite (proj2 (list_eqb_Z_eq full full) eq_refl) in Ee. discriminate.
+    - cbn [bind]. destruct (Nat.eqb_spec (length zs) (length vs)) as [El|El]; cbn [bind].
+      + rewrite (Hrest _ _ eq_refl). split.
+        * intros [Hi ->]. exists full. repeat split; auto. discriminate.
+        * intros (full' & E & _ & Hi & _ & ->). injection E as <-. auto.
+      + split; [discriminate|]. intros (full' & _ & Hl & _). contradiction.
+  Qed.
+
+  Lemma grades_step_keyed zs nm g0 : zs <> [] ->
+    grades_step (Some zs) nm g0
+    = if (match g0 with
+          | Some g => grade_range_ok A g
+          | None => if nm then grade_range_ok A (grades_of_keys zs) else true
+          end)
+      then Ok (declared g0 (grades_of_keys zs)) else Err EValue.
+  Proof.
+    intros Hzs. unfold grades_step, declared. destruct g0 as [g|]; [destruct nm; reflexivity|].
+    destruct nm; [reflexivity|]. destruct zs; [contradiction | reflexivity].
+  Qed.
+
+  Lemma grades_step_unkeyed nm g0 :
+    grades_step None nm g0
+    = match g0 with
+      | Some g => if grade_range_ok A g then Ok g else Err EValue
+      | None => Ok (map Z.of_nat (all_grades A))
+      end.
+  Proof. unfold grades_step. destruct g0 as [g|]; destruct nm; reflexivity. Qed.
+
+  Theorem core_keyed zs vs nm g0 m : zs <> [] -> (nm = false \/ vs <> []) ->
+    (core A sym (Some zs) (VList vs) nm g0 = Ok m <->
+     exists full, (forall g, g0 = Some g -> grade_range_ok A g = true)
+       /\ ifg A (declared g0 (grades_of_keys zs)) = Ok full
+       /\ length zs = length vs /\ incl zs full /\ (a_graded A = true -> zs = full)
+       /\ m = combine zs vs).
+  Proof.
+    intros Hzs Hnv. rewrite core_split, (grades_step_keyed zs nm g0 Hzs). split.
+    - intros H. apply bind_ok in H. destruct H as (G & HG & Ht).
+      assert (G = declared g0 (grades_of_keys zs) /\ forall g, g0 = Some g -> grade_range_ok A g = true) as [-> Hr].
+      { destruct g0 as [g|].
+        - destruct (grade_range_ok A g) eqn:E; [|discriminate]. injection HG as <-. split; [reflexivity|].
+          intros g' Eg. injection Eg as <-. exact E.
+        - split; [|discriminate]. destruct nm; [destruct (grade_range_ok A (grades_of_keys zs))|];
+            try discriminate; injection HG as <-; reflexivity. }
+      apply (core_tail_keyed zs vs nm _ m Hzs Hnv) in Ht. destruct Ht as (full & H1 & H2 & H3 & H4 & H5).
+      exists full. repeat (split; [assumption|]). assumption.
+    - intros (full & Hr & H1 & H2 & H3 & H4 & H5).
+      assert (Hc : (match g0 with
+                    | Some g => grade_range_ok A g
+                    | None => if nm then grade_range_ok A (grades_of_keys zs) else true
+                    end) = true).
+      { destruct g0 as [g|]; [apply Hr; reflexivity|]. destruct nm; [|reflexivity].
+        apply (ifg_range_computed A zs full H1). }
+      rewrite Hc. cbn [bind]. apply (core_tail_keyed zs vs nm _ m Hzs Hnv). exists full.
+      repeat (split; [assumption|]). assumption.
+  Qed.
+
+  (* ---------------- keys given, name= ---------------- *)
+  Lemma mapM_sym ks : (forall k, In k ks -> 0 <= k < L) ->
+    mapM_res (fun k => match bin2canon A k with Some _ => Ok (sym k) | None => Err EKey end) ks = Ok (map sym ks).
+  Proof.
+    intros H. apply mapM_res_ok. intros k Hk. destruct (bin2canon_total A Hwf k (H k Hk)) as (c & -> & _).
+    reflexivity.
+  Qed.
+
+  Lemma mapM_sym_inv ks vs' :
+    mapM_res (fun k => match bin2canon A k with Some _ => Ok (sym k) | None => Err EKey end) ks = Ok vs' ->
+    vs' = map sym ks.
+  Proof.
+    intros H. apply mapM_res_inv in H. induction H as [|k v ks vs' Hk _ IH]; [reflexivity|].
+    cbn [map]. f_equal; [|exact IH]. destruct (bin2canon A k); [|discriminate]. injection Hk as <-. reflexivity.
+  Qed.
+
+  Lemma combine_map_self {X} (f : Z -> X) ks : combine ks (map f ks) = map (fun k => (k, f k)) ks.
+  Proof. induction ks as [|k r IH]; [reflexivity|]. cbn [map combine]. rewrite IH. reflexivity. Qed.
+
+  Definition novalues (v : vals R) : Prop := v = VNone \/ v = VList [].
+
+  Lemma core_tail_novalues keys v nm G : novalues v -> core_tail keys v nm G = core_tail keys (VList []) nm G.
+  Proof. intros [-> | ->]; reflexivity. Qed.
+
+  Lemma core_tail_named_keyed zs v G m : zs <> [] -> novalues v ->
+    (core_tail zs v true G = Ok m <->
+     exists full, ifg A G = Ok full /\ incl zs full /\ (a_graded A = true -> zs = full)
+                  /\ m = map (fun k => (k, sym k)) zs).
+  Proof.
+    intros Hzs Hv. rewrite (core_tail_novalues zs v true G Hv). unfold core_tail.
+    assert (Hn1 : isnil zs = false) by (apply isnil_false; exact Hzs).
+    rewrite Hn1. cbn [negb]. rewrite andb_true_r.
+    destruct (ifg A G) as [full|e] eqn:Ef.
+    2:{ split; [|intros (full & H & _); discriminate].
+        destruct (a_graded A); cbn [bind]; discriminate. }
+    cbn [bind]. rewrite andb_false_r. cbn [andb isnil].
+    assert (Hfin : (( '(keysk, values) <-
+                       (vs' <- mapM_res (fun k => match bin2canon A k with Some _ => Ok (sym k) | None => Err EKey end) zs ;;
+                        Ok (map KInt zs, vs')) ;;
+                      keys8 <- sanitize A keysk ;; full0 <- Ok full ;;
+                      (if forallb (fun k => zin k full0) keys8 then Ok (combine keys8 values) else Err EValue)) = Ok m)
+                   <-> incl zs full /\ m = map (fun k => (k, sym k)) zs).
+    { split.
+      - intros H. apply bind_ok in H. destruct H as ([keysk values] & H1 & H2).
+        apply bind_ok in H1. destruct H1 as (vs' & Hm & E). injection E as <- <-.
+        apply mapM_sym_inv in Hm. subst vs'. rewrite sanitize_ints in H2. cbn [bind] in H2.
+        destruct (forallb (fun k => zin k full) zs) eqn:Ei; [|discriminate]. injection H2 as <-.
+        split; [apply forallb_zin_incl; exact Ei | apply combine_map_self].
+      - intros [Hi ->]. rewrite mapM_sym.
+        + cbn [bind]. rewrite sanitize_ints. cbn [bind]. rewrite (proj2 (forallb_zin_incl zs full) Hi).
+          rewrite combine_map_self. reflexivity.
+        + intros k Hk. apply (ifg_in A Hwf G full k Ef). apply Hi. exact Hk. }
+    destruct (a_graded A) eqn:Eg.
+    - destruct (list_eqb Z.eqb zs full) eqn:Ee; cbn [bind].
+      + apply list_eqb_Z_eq in Ee. rewrite Hfin. split.
+        * intros [Hi ->]. exists full. repeat split; auto.
+        * intros (full' & E & Hi & _ & ->). injection E as <-. auto.
+      + split; [discriminate|]. intros (full' & E & _ & Hg & _). injection E as <-.
+        rewrite (Hg eq_refl) in Ee. rewrite (proj2 (list_eqb_Z_eq full full) eq_refl) in Ee. discriminate.
+    - cbn [bind]. rewrite Hfin. split.
+      + intros [Hi ->]. exists full. repeat split; auto. discriminate.
+      + intros (full' & E & Hi & _ & ->). injection E as <-. auto.
+  Qed.
+
+  Theorem core_named_keyed zs v g0 m : zs <> [] -> novalues v ->
+    (core A sym (Some zs) v true g0 = Ok m <->
+     exists full, (forall g, g0 = Some g -> grade_range_ok A g = true)
+       /\ ifg A (declared g0 (grades_of_keys zs)) = Ok full
+       /\ incl zs full /\ (a_graded A = true -> zs = full)
+       /\ m = map (fun k => (k, sym k)) zs).
+  Proof.
+    intros Hzs Hv. rewrite core_split, (grades_step_keyed zs true g0 Hzs). split.
+    - intros H. apply bind_ok in H. destruct H as (G & HG & Ht).
+      assert (G = declared g0 (grades_of_keys zs) /\ forall g, g0 = Some g -> grade_range_ok A g = true) as [-> Hr].
+      { destruct g0 as [g|].
+        - destruct (grade_range_ok A g) eqn:E; [|discriminate]. injection HG as <-. split; [reflexivity|].
+          intros g' Eg. injection Eg as <-. exact E.
+        - split; [|discriminate]. destruct (grade_range_ok A (grades_of_keys zs));
+            try discriminate; injection HG as <-; reflexivity. }
+      apply (core_tail_named_keyed zs v _ m Hzs Hv) in Ht. destruct Ht as (full & H1 & H2 & H3 & H4).
+      exists full. repeat (split; [assumption|]). assumption.
+    - intros (full & Hr & H1 & H2 & H3 & H4).
+      assert (Hc : (match g0 with
+                    | Some g => grade_range_ok A g
+                    | None => grade_range_ok A (grades_of_keys zs)
+                    end) = true).
+      { destruct g0 as [g|]; [apply Hr; reflexivity|]. apply (ifg_range_computed A zs full H1). }
+      rewrite Hc. cbn [bind]. apply (core_tail_named_keyed zs v _ m Hzs Hv). exists full.
+      repeat (split; [assumption|]). assumption.
+  Qed.
+
+  (* ---------------- no keys ---------------- *)
+  Lemma core_unkeyed v nm g0 m :
+    core A sym None v nm g0 = Ok m <->
+    (forall g, g0 = Some g -> grade_range_ok A g = true)
+    /\ core_tail [] v nm (declared g0 (map Z.of_nat (all_grades A))) = Ok m.
+  Proof.
+    rewrite core_split, grades_step_unkeyed. destruct g0 as [g|]; cbn [declared].
+    - destruct (grade_range_ok A g) eqn:E; cbn [bind].
+      + split; [intros H; split; [intros g' Eg; injection Eg as <-; exact E | exact H] | intros [_ H]; exact H].
+      + split; [discriminate|]. intros [H _]. specialize (H g eq_refl). congruence.
+    - cbn [bind]. split; [intros H; split; [discriminate | exact H] | intros [_ H]; exact H].
+  Qed.
+
+  Lemma core_tail_unkeyed_values vs nm G m : (nm = false \/ vs <> []) ->
+    (core_tail [] (VList vs) nm G = Ok m <->
+     exists full, ifg A G = Ok full
+       /\ ((length vs = length full /\ m = combine full vs)
+           \/ (length vs <> length full /\ vs = [] /\ m = []))).
+  Proof.
+    intros Hnv. unfold core_tail. cbn [isnil negb]. rewrite andb_false_r. cbn [bind].
+    assert (Hn2 : nm && isnil vs = false).
+    { destruct Hnv as [->|Hv]; [reflexivity|]. apply isnil_false in Hv. rewrite Hv. apply andb_false_r. }
+    destruct (ifg A G) as [full|e] eqn:Ef; cbn [bind].
+    2:{ split; [discriminate | intros (full & H & _); discriminate]. }
+    rewrite andb_true_r, Hn2.
+    destruct (Nat.eqb_spec (length vs) (length full)) as [El|El]; cbn [bind].
+    - rewrite sanitize_ints. cbn [bind].
+      rewrite (proj2 (forallb_zin_incl full full) (incl_refl full)). split.
+      + intros H. injection H as <-. exists full. split; [reflexivity|]. left. auto.
+      + intros (full' & E & [[_ ->]|[Hne _]]); injection E as <-; [reflexivity | contradiction].
+    - cbn [length]. destruct vs as [|v0 vr]; cbn [length Nat.eqb bind].
+      + cbn [map sanitize forallb combine]. unfold sanitize. cbn [forallb map bind combine]. split.
+        * intros H. injection H as <-. exists full. split; [reflexivity|]. right. auto.
+        * intros (full' & E & [[Hl _]|[_ [_ ->]]]); injection E as <-; [contradiction | reflexivity].
+      + split; [discriminate|]. intros (full' & E & [[Hl _]|[_ [Hv _]]]); injection E as <-; [contradiction | discriminate].
+  Qed.
+
+  Lemma core_tail_unkeyed_name v G m : novalues v ->
+    (core_tail [] v true G = Ok m <-> exists full, ifg A G = Ok full /\ m = map (fun k => (k, sym k)) full).
+  Proof.
+    intros Hv. rewrite (core_tail_novalues [] v true G Hv). unfold core_tail.
+    cbn [isnil negb]. rewrite andb_false_r. cbn [bind length].
+    destruct (ifg A G) as [full|e] eqn:Ef; cbn [bind].
+    2:{ split; [discriminate | intros (full & H & _); discriminate]. }
+    rewrite andb_true_r. cbn [andb].
+    assert (Hin : forall k, In k full -> 0 <= k < L) by (intros k Hk; apply (ifg_in A Hwf G full k Ef); exact Hk).
+    destruct full as [|k0 fr]; cbn [length Nat.eqb bind].
+    - unfold sanitize. cbn [map forallb bind combine]. split.
+      + intros H. injection H as <-. exists []. split; reflexivity.
+      + intros (full' & E & ->). injection E as <-. reflexivity.
+    - rewrite (mapM_sym (k0 :: fr) Hin). cbn [bind]. rewrite sanitize_ints. cbn [bind].
+      rewrite (proj2 (forallb_zin_incl (k0 :: fr) (k0 :: fr)) (incl_refl _)), combine_map_self. split.
+      + intros H. injection H as <-. exists (k0 :: fr). split; reflexivity.
+      + intros (full' & E & ->). injection E as <-. reflexivity.
+  Qed.
+
+  Lemma core_tail_map mp nm G m :
+    core_tail [] (VMap mp) nm G = Ok m <->
+    exists zs full, sanitize A (map fst mp) = Ok zs /\ ifg A G = Ok full /\ incl zs full
+      /\ (a_graded A = true -> mp <> [] -> ifg A (grades_of_keys zs) = Ok zs)
+      /\ m = combine zs (map snd mp).
+  Proof.
+    unfold core_tail. cbn [isnil negb]. rewrite andb_false_r. cbn [bind].
+    assert (Hfin : forall zs,
+      ((full <- ifg A G ;; (if forallb (fun k => zin k full) zs then Ok (combine zs (map snd mp)) else Err EValue)) = Ok m)
+      <-> exists full, ifg A G = Ok full /\ incl zs full /\ m = combine zs (map snd mp)).
+    { intros zs. destruct (ifg A G) as [full|e]; cbn [bind].
+      - destruct (forallb (fun k => zin k full) zs) eqn:Ei.
+        + apply forallb_zin_incl in Ei. split; [intros H; injection H as <-; exists full; auto|].
+          intros (full' & E & _ & ->). reflexivity.
+        + split; [discriminate|]. intros (full' & E & Hi & _). injection E as <-.
+          apply forallb_zin_incl in Hi. congruence.
+      - split; [discriminate | intros (full' & E & _); discriminate]. }
+    destruct (a_graded A && negb (isnil mp)) eqn:Eg.
+    - apply andb_prop in Eg. destruct Eg as [Eg Hmp]. apply negb_true_iff, isnil_false in Hmp. split.
+      + intros H. apply bind_ok in H. destruct H as ([keysk values] & H1 & H2).
+        apply bind_ok in H1. destruct H1 as (zs & Hzs & H1). apply bind_ok in H1. destruct H1 as (full' & Hf' & H1).
+        destruct (list_eqb Z.eqb zs full') eqn:Ee; [|discriminate]. apply list_eqb_Z_eq in Ee. subst full'.
+        injection H1 as <- <-. rewrite sanitize_ints in H2. cbn [bind] in H2.
+        apply Hfin in H2. destruct H2 as (full & Hf & Hi & ->).
+        exists zs, full. split; [apply (mapM_conv_sanitize A Hwf _ _ Hzs)|].
+        split; [exact Hf|]. split; [exact Hi|]. split; [intros _ _; exact Hf' | reflexivity].
+      + intros (zs & full & Hs & Hf & Hi & Hg & ->).
+        assert (Hr : forall z, In z zs -> 0 <= z < L) by (intros z Hz; apply (ifg_in A Hwf G full z Hf); apply Hi; exact Hz).
+        rewrite (sanitize_mapM_conv A Hwf _ _ Hs Hr). cbn [bind]. rewrite (Hg Eg Hmp). cbn [bind].
+        rewrite (proj2 (list_eqb_Z_eq zs zs) eq_refl). cbn [bind]. rewrite sanitize_ints. cbn [bind].
+        apply Hfin. exists full. auto.
+    - cbn [bind]. split.
+      + intros H. apply bind_ok in H. destruct H as (zs & Hs & H). apply Hfin in H.
+        destruct H as (full & Hf & Hi & ->). exists zs, full.
+        split; [exact Hs|]. split; [exact Hf|]. split; [exact Hi|]. split; [|reflexivity].
+        intros Hg Hmp. apply isnil_false in Hmp. rewrite Hg, Hmp in Eg. discriminate.
+      + intros (zs & full & Hs & Hf & Hi & _ & ->). rewrite Hs. cbn [bind]. apply Hfin. exists full. auto.
+  Qed.
+End Build.
+
+(* ====================================================================================== *)
+(** * 6. Keyword blades *)
+
+Section Dict.
+  Context {V : Type}.
+  Implicit Types d : list (name * V).
+
+  Lemma nassoc_app n d1 d2 :
+    nassoc n (d1 ++ d2) = match nassoc n d1 with Some v => Some v | None => nassoc n d2 end.
+  Proof.
+    induction d1 as [|[m v] r IH]; [reflexivity|]. cbn [app nassoc]. destruct (name_eqb m n); [reflexivity | exact IH].
+  Qed.
+
+  Lemma nassoc_notin n d : ~ In n (map fst d) -> nassoc n d = None.
+  Proof.
+    induction d as [|[m v] r IH]; intros H; [reflexivity|]. cbn [nassoc].
+    destruct (name_eqb m n) eqn:E.
+    - apply name_eqb_eq in E. subst m. exfalso. apply H. left. reflexivity.
+    - apply IH. intros Hin. apply H. right. exact Hin.
+  Qed.
+
+  Lemma nassoc_some_in n d v : nassoc n d = Some v -> In (n, v) d.
+  Proof.
+    induction d as [|[m w] r IH]; cbn [nassoc]; [discriminate|]. destruct (name_eqb m n) eqn:E.
+    - apply name_eqb_eq in E. subst m. intros H. injection H as <-. left. reflexivity.
+    - intros H. right. apply IH. exact H.
+  Qed.
+
+  Lemma nassoc_in n v d : NoDup (map fst d) -> In (n, v) d -> nassoc n d = Some v.
+  Proof.
+    induction d as [|[m w] r IH]; intros Hnd Hin; [destruct Hin|]. cbn [map fst] in Hnd.
+    inversion Hnd as [|? ? Hm Hr]; subst. cbn [nassoc]. destruct Hin as [E|Hin].
+    - injection E as -> ->. rewrite (proj2 (name_eqb_eq n n) eq_refl). reflexivity.
+    - destruct (name_eqb m n) eqn:E.
+      + apply name_eqb_eq in E. subst m. exfalso. apply Hm. change n with (fst (n, v)). apply in_map. exact Hin.
+      + apply IH; assumption.
+  Qed.
+
+  Lemma nassoc_nset x n v d : nassoc x (nset n v d) = if name_eqb n x then Some v else nassoc x d.
+  Proof.
+    induction d as [|[m w] r IH]; cbn [nset nassoc].
+    - reflexivity.
+    - destruct (name_eqb m n) eqn:E; cbn [nassoc].
+      + apply name_eqb_eq in E. subst m. destruct (name_eqb n x); reflexivity.
+      + rewrite IH. destruct (name_eqb m x) eqn:E2; [|reflexivity].
+        apply name_eqb_eq in E2. subst m. destruct (name_eqb n x) eqn:E3; [|reflexivity].
+        apply name_eqb_eq in E3. subst n. rewrite (proj2 (name_eqb_eq x x) eq_refl) in E. discriminate.
+  Qed.
+
+  Lemma nassoc_nremove x n d : NoDup (map fst d) ->
+    nassoc x (nremove n d) = if name_eqb n x then None else nassoc x d.
+  Proof.
+    induction d as [|[m w] r IH]; intros Hnd; cbn [nremove nassoc].
+    - destruct (name_eqb n x); reflexivity.
+    - cbn [map fst] in Hnd. inversion Hnd as [|? ? Hm Hr]; subst. destruct (name_eqb m n) eqn:E.
+      + apply name_eqb_eq in E. subst m. destruct (name_eqb n x) eqn:E2; [|reflexivity].
+        apply name_eqb_eq in E2. subst x. apply nassoc_notin. exact Hm.
+      + cbn [nassoc]. rewrite (IH Hr). destruct (name_eqb m x) eqn:E2; [|reflexivity].
+        apply name_eqb_eq in E2. subst m. destruct (name_eqb n x) eqn:E3; [|reflexivity].
+        apply name_eqb_eq in E3. subst n. rewrite (proj2 (name_eqb_eq x x) eq_refl) in E. discriminate.
+  Qed.
+
+  Lemma nremove_names n d : forall x, In x (map fst (nremove n d)) -> In x (map fst d).
+  Proof.
+    induction d as [|[m w] r IH]; intros x; cbn [nremove map fst]; [auto|].
+    destruct (name_eqb m n); [intros H; right; exact H|]. cbn [map fst In]. intros [H|H]; [left; exact H | right; apply IH; exact H].
+  Qed.
+
+  Lemma nremove_nodup n d : NoDup (map fst d) -> NoDup (map fst (nremove n d)).
+  Proof.
+    induction d as [|[m w] r IH]; intros Hnd; cbn [nremove]; [constructor|].
+    cbn [map fst] in Hnd. inversion Hnd as [|? ? Hm Hr]; subst. destruct (name_eqb m n); [exact Hr|].
+    cbn [map fst]. constructor; [|apply IH; exact Hr]. intros H. apply Hm. apply (nremove_names n r m H).
+  Qed.
+
+  Lemma nset_names n v d : forall x, In x (map fst (nset n v d)) <-> x = n \/ In x (map fst d).
+  Proof.
+    induction d as [|[m w] r IH]; intros x; cbn [nset map fst In].
+    - intuition.
+    - destruct (name_eqb m n) eqn:E; cbn [map fst In].
+      + apply name_eqb_eq in E. subst m. intuition.
+      + rewrite IH. intuition.
+  Qed.
+
+  Lemma nset_nodup n v d : NoDup (map fst d) -> NoDup (map fst (nset n v d)).
+  Proof.
+    induction d as [|[m w] r IH]; intros Hnd; cbn [nset map fst].
+    - constructor; [intros [] | constructor].
+    - cbn [map fst] in Hnd. inversion Hnd as [|? ? Hm Hr]; subst. destruct (name_eqb m n) eqn:E; cbn [map fst].
+      + constructor; assumption.
+      + constructor; [|apply IH; exact Hr]. intros H. apply nset_names in H. destruct H as [->|H]; [|contradiction].
+        rewrite (proj2 (name_eqb_eq n n) eq_refl) in E. discriminate.
+  Qed.
+End Dict.
+
+Section Keywords.
+  Variable R : Type.
+  Variables (rO rI : R) (radd rmul rsub : R -> R -> R) (ropp : R -> R).
+  Hypothesis Rth : ring_theory rO rI radd rmul rsub ropp (@eq R).
+  Add Ring Rring15c : Rth.
+  Local Notation O := (mkOps R radd rsub rmul ropp rO rI).
+  Local Notation sg := (sg R ropp).
+  Variable A : alg.
+  Hypothesis Hwf : wf_alg A = true.
+  Local Notation L := (alg_len A).
+
+  Definition keyof (n : name) : option Z := name_bin (alg_vecs A) n.
+
+  (* every keyword spells a blade of the algebra (no repeated generator), no blade is given twice *)
+  Definition valid_items (its : list (name * R)) : Prop :=
+    (forall n v, In (n, v) its -> exists K, spells A n K)
+    /\ NoDup (map (fun nv => keyof (fst nv)) its).
+
+  (* what the loop over the keywords turns one item into *)
+  Definition kw_conv (nv : name * R) : name * R :=
+    match blade2canon A (fst nv) with
+    | (Some c, sw) => (c, if Z.odd sw then ropp (snd nv) else snd nv)
+    | (None, _) => nv
+    end.
+
+  Lemma kw_conv_spells n v K : spells A n K ->
+    exists c, bin2canon A K = Some c /\ canon2bin A c = Some K /\ spells A c K
+              /\ kw_conv (n, v) = (c, sg (sp_odd n c) v).
+  Proof.
+    intros Hs. destruct (blade2canon_spells A Hwf n K Hs) as (c & sw & Hc & Hcb & Hp & Hb & Hpar).
+    exists c. split; [exact Hc|]. split; [exact Hcb|]. split; [apply (canon_spells A Hwf K c Hc)|].
+    unfold kw_conv. cbn [fst snd]. rewrite Hb, Hpar. reflexivity.
+  Qed.
+
+  Lemma keyof_spells n K : spells A n K -> keyof n = Some K.
+  Proof. intros [_ H]. exact H. Qed.
+
+  Lemma keyof_conv n v : (exists K, spells A n K) -> keyof (fst (kw_conv (n, v))) = keyof n.
+  Proof.
+    intros (K & Hs). destruct (kw_conv_spells n v K Hs) as (c & _ & _ & Hcs & ->). cbn [fst].
+    rewrite (keyof_spells n K Hs), (keyof_spells c K Hcs). reflexivity.
+  Qed.
+
+  Lemma keys_conv l : (forall n v, In (n, v) l -> exists K, spells A n K) ->
+    map (fun nv => keyof (fst nv)) (map kw_conv l) = map (fun nv => keyof (fst nv)) l.
+  Proof.
+    intros H. rewrite map_map. apply map_ext_in. intros [n v] Hin. apply keyof_conv. apply (H n v Hin).
+  Qed.
+
+  Lemma names_nodup (l : list (name * R)) : NoDup (map (fun nv => keyof (fst nv)) l) -> NoDup (map fst l).
+  Proof. intros H. apply (NoDup_map_inv keyof). rewrite map_map. exact H. Qed.
+
+  Lemma not_in_names y (l : list (name * R)) :
+    (forall e, In e l -> keyof (fst e) <> keyof y) -> ~ In y (map fst l).
+  Proof. intros H Hin. apply in_map_iff in Hin. destruct Hin as (e & <- & He). apply (H e He). reflexivity. Qed.
+
+  Lemma fold_err_stays (ks : list name) e :
+    fold_left (fun acc k => d <- acc ;; kw_step O A d k) ks (Err e) = Err e.
+  Proof. induction ks as [|k r IH]; [reflexivity | exact IH]. Qed.
+
+  Lemma kw_fold todo : forall done d,
+    valid_items (done ++ todo) -> NoDup (map fst d) ->
+    (forall x, nassoc x d = nassoc x (map kw_conv done ++ todo)) ->
+    exists d', fold_left (fun acc k => d <- acc ;; kw_step O A d k) (map fst todo) (Ok d) = Ok d'
+               /\ NoDup (map fst d')
+               /\ forall x, nassoc x d' = nassoc x (map kw_conv (done ++ todo)).
+  Proof.
+    induction todo as [|[n v] t IH]; intros done d Hval Hnd Hd.
+    - exists d. split; [reflexivity|]. split; [exact Hnd|]. intros x. rewrite Hd, !app_nil_r. reflexivity.
+    - destruct Hval as [Hsp Hkeys].
+      assert (Hval' : valid_items ((done ++ [(n, v)]) ++ t)) by (rewrite <- app_assoc; split; assumption).
+      destruct (Hsp n v) as (K & Hs); [apply in_or_app; right; left; reflexivity|].
+      (* distinctness of the blade of n from all the others *)
+      assert (Hother : forall e, In e (done ++ t) -> keyof (fst e) <> keyof n).
+      { intros e He Heq. rewrite map_app in Hkeys. cbn [map fst] in Hkeys. apply NoDup_remove_2 in Hkeys.
+        apply Hkeys. rewrite <- map_app. rewrite <- Heq.
+        apply (in_map (fun nv => keyof (fst nv)) _ e He). }
+      assert (Hdone : forall e, In e (map kw_conv done) -> keyof (fst e) <> keyof n).
+      { intros e He. apply in_map_iff in He. destruct He as ([n0 v0] & <- & Hin0).
+        rewrite keyof_conv by (apply (Hsp n0 v0); apply in_or_app; left; exact Hin0).
+        apply (Hother (n0, v0)). apply in_or_app. left. exact Hin0. }
+      assert (Ht : forall e, In e t -> keyof (fst e) <> keyof n).
+      { intros e He. apply Hother. apply in_or_app. right. exact He. }
+      assert (Hn_d : nassoc n d = Some v).
+      { rewrite Hd, nassoc_app, (nassoc_notin n (map kw_conv done) (not_in_names n _ Hdone)).
+        cbn [nassoc]. rewrite (proj2 (name_eqb_eq n n) eq_refl). reflexivity. }
+      cbn [map fst fold_left bind]. unfold kw_step at 2.
+      destruct (canon2bin A n) as [b|] eqn:Ecn.
+      + (* a table name: untouched *)
+        assert (Hconv : kw_conv (n, v) = (n, v)).
+        { unfold kw_conv, blade2canon. cbn [fst snd]. rewrite Ecn. reflexivity. }
+        destruct (IH (done ++ [(n, v)]) d Hval' Hnd) as (d' & Hf & Hnd' & Hd').
+        { intros x. rewrite Hd, map_app. cbn [map]. rewrite Hconv, <- app_assoc. reflexivity. }
+        exists d'. split; [exact Hf|]. split; [exact Hnd'|]. intros x. rewrite Hd', <- app_assoc. reflexivity.
+      + destruct (kw_conv_spells n v K Hs) as (c & Hc & Hcb & Hcs & Hconv).
+        destruct (blade2canon_spells A Hwf n K Hs) as (c' & sw & Hc' & _ & _ & Hb & Hpar).
+        assert (c' = c) by congruence. subst c'.
+        rewrite Hb, Hn_d. cbn [of_opt bind].
+        assert (Hval_eq : (if Z.odd sw then o_neg O v else v) = sg (sp_odd n c) v).
+        { rewrite Hpar. reflexivity. }
+        rewrite Hval_eq.
+        assert (Hck : keyof c = keyof n) by (rewrite (keyof_spells n K Hs), (keyof_spells c K Hcs); reflexivity).
+        assert (Hcn : name_eqb c n = false).
+        { destruct (name_eqb c n) eqn:E; [|reflexivity]. apply name_eqb_eq in E. subst c. congruence. }
+        destruct (IH (done ++ [(n, v)]) (nset c (sg (sp_odd n c) v) (nremove n d)) Hval') as (d' & Hf & Hnd' & Hd').
+        { apply nset_nodup, nremove_nodup. exact Hnd. }
+        { intros x. rewrite nassoc_nset, (nassoc_nremove x n d Hnd), Hd, map_app. cbn [map].
+          rewrite Hconv, <- app_assoc. cbn [app]. rewrite !nassoc_app. cbn [nassoc].
+          destruct (name_eqb c x) eqn:Ecx.
+          - apply name_eqb_eq in Ecx. subst x.
+            rewrite (nassoc_notin c (map kw_conv done)); [reflexivity|].
+            apply not_in_names. intros e He. rewrite Hck. apply (Hdone e He).
+          - destruct (name_eqb n x) eqn:Enx; [|reflexivity].
+            apply name_eqb_eq in Enx. subst x.
+            rewrite (nassoc_notin n (map kw_conv done) (not_in_names n _ Hdone)).
+            rewrite (nassoc_notin n t (not_in_names n _ Ht)). reflexivity. }
+        exists d'. split; [exact Hf|]. split; [exact Hnd'|]. intros x. rewrite Hd', <- app_assoc. reflexivity.
+  Qed.
+
+  (* the multivector the keyword form must build: for every table entry (c, K) in canonical order whose
+     name is the target of a keyword, the key K with the parity-adjusted value *)
+  Definition kw_expected (its : list (name * R)) : mv R :=
+    flat_map (fun cb => match nassoc (fst cb) (map kw_conv its) with Some v => [(snd cb, v)] | None => [] end)
+             (a_c2b A).
+
+  Lemma valid_conv its : valid_items its -> NoDup (map fst (map kw_conv its)).
+  Proof. intros [Hsp Hk]. apply names_nodup. rewrite (keys_conv its Hsp). exact Hk. Qed.
+
+  Lemma kw_normalise_spec its : valid_items its ->
+    kw_normalise O A its
+    = match kw_collect A (map kw_conv its) with
+      | [] => Err EValue
+      | kv => Ok (map (fun x => KName (fst x)) kv, map snd kv)
+      end.
+  Proof.
+    intros Hv. unfold kw_normalise.
+    destruct (kw_fold its [] its) as (d' & Hf & _ & Hd').
+    - exact Hv.
+    - apply names_nodup. apply Hv.
+    - reflexivity.
+    - rewrite Hf. cbn [bind].
+      assert (E : kw_collect A d' = kw_collect A (map kw_conv its)).
+      { unfold kw_collect. apply flat_map_ext. intros cb. rewrite Hd'. reflexivity. }
+      rewrite E. reflexivity.
+  Qed.
+
+  Lemma sanitize_names ns bs : Forall2 (fun n b => canon2bin A n = Some b) ns bs ->
+    sanitize A (map KName ns) = Ok bs.
+  Proof.
+    intros H. destruct H as [|n b ns bs Hn Hr]; [reflexivity|].
+    unfold sanitize. cbn [map forallb is_int andb]. apply mapM_res_of_Forall2.
+    constructor; [cbn [conv_key]; rewrite Hn; reflexivity|].
+    induction Hr as [|n' b' ns bs Hn' _ IH]; [constructor|].
+    cbn [map]. constructor; [cbn [conv_key]; rewrite Hn'; reflexivity | exact IH].
+  Qed.
+
+  (* the (name, value) pairs collected from the dictionary, turned into int keys, are [kw_expected] *)
+  Lemma collect_sanitize (d : list (name * R)) (l : list (name * Z)) : incl l (a_c2b A) ->
+    let kv := flat_map (fun cb => match nassoc (fst cb) d with Some v => [(fst cb, v)] | None => [] end) l in
+    let E := flat_map (fun cb => match nassoc (fst cb) d with Some v => [(snd cb, v)] | None => [] end) l in
+    Forall2 (fun n b => canon2bin A n = Some b) (map fst kv) (keys E)
+    /\ map snd kv = map snd E /\ length (keys E) = length (map snd kv).
+  Proof.
+    induction l as [|[c b] r IH]; intros Hl; cbn zeta.
+    - cbn [flat_map map keys]. split; [constructor | split; reflexivity].
+    - assert (Hr : incl r (a_c2b A)) by (intros x Hx; apply Hl; right; exact Hx).
+      destruct (IH Hr) as (H1 & H2 & H3). cbn [flat_map fst snd].
+      destruct (nassoc c d) as [v|]; cbn [app].
+      + unfold keys in *. cbn [map fst snd]. split; [|split].
+        * constructor; [|exact H1]. apply (entry_canon2bin A Hwf c b). apply Hl. left. reflexivity.
+        * f_equal. exact H2.
+        * cbn [length]. f_equal. exact H3.
+      + split; [exact H1 | split; [exact H2 | exact H3]].
+  Qed.
+
+  Lemma combine_keys_vals (E : mv R) : combine (keys E) (map snd E) = E.
+  Proof. unfold keys. induction E as [|[k v] r IH]; [reflexivity|]. cbn [map combine fst snd]. rewrite IH. reflexivity. Qed.
+
+  Lemma kw_collect_names its :
+    let kv := kw_collect A (map kw_conv its) in
+    sanitize A (map (fun x => KName (fst x)) kv) = Ok (keys (kw_expected its))
+    /\ combine (keys (kw_expected its)) (map snd kv) = kw_expected its
+    /\ (kv = [] <-> kw_expected its = [])
+    /\ length (keys (kw_expected its)) = length (map snd kv).
+  Proof.
+    cbn zeta. destruct (collect_sanitize (map kw_conv its) (a_c2b A) (incl_refl _)) as (H1 & H2 & H3).
+    fold (kw_collect A (map kw_conv its)) in H1, H2, H3. fold (kw_expected its) in H1, H2, H3.
+    split; [|split; [|split]]; [| | |exact H3].
+    - rewrite <- (map_map fst KName). apply sanitize_names. exact H1.
+    - rewrite H2. apply combine_keys_vals.
+    - unfold keys in H3. rewrite !map_length in H3.
+      destruct (kw_collect A (map kw_conv its)), (kw_expected its); cbn [length] in H3; split; intros; try reflexivity; try discriminate.
+  Qed.
+
+  (* exactly the supplied blades are stored, each with its parity-adjusted value *)
+  Theorem kw_expected_in its K val : valid_items its ->
+    (In (K, val) (kw_expected its) <->
+     exists n v c, In (n, v) its /\ spells A n K /\ bin2canon A K = Some c /\ val = sg (sp_odd n c) v).
+  Proof.
+    intros Hv. pose proof (valid_conv its Hv) as Hnd. destruct Hv as [Hsp Hk]. unfold kw_expected. rewrite in_flat_map. split.
+    - intros ([c b] & Hcb & Hin). cbn [fst snd] in Hin.
+      destruct (nassoc c (map kw_conv its)) as [v'|] eqn:Ea; [|destruct Hin].
+      destruct Hin as [E|[]]. injection E as -> ->.
+      apply nassoc_some_in in Ea. apply in_map_iff in Ea. destruct Ea as ([n v] & Econv & Hin).
+      destruct (Hsp n v Hin) as (K0 & Hs). destruct (kw_conv_spells n v K0 Hs) as (c0 & Hc0 & Hcb0 & _ & Hconv).
+      rewrite Hconv in Econv. injection Econv as E1 E2. subst c0. subst val.
+      pose proof (entry_canon2bin A Hwf c K Hcb) as HcK. assert (K0 = K) by congruence. subst K0.
+      exists n, v, c. auto.
+    - intros (n & v & c & Hin & Hs & Hc & ->). exists (c, K). split; [apply (bin2canon_entry A K c Hc)|].
+      cbn [fst snd]. destruct (kw_conv_spells n v K Hs) as (c0 & Hc0 & _ & _ & Hconv).
+      assert (c0 = c) by congruence. subst c0.
+      rewrite (nassoc_in c (sg (sp_odd n c) v) _ Hnd); [left; reflexivity|].
+      rewrite <- Hconv. apply in_map. exact Hin.
+  Qed.
+
+  Lemma kw_expected_nodup its : NoDup (keys (kw_expected its)).
+  Proof.
+    unfold kw_expected. pose proof (wf_bins_nodup A Hwf) as Hnd. unfold canon_keys in Hnd.
+    induction (a_c2b A) as [|[c b] r IH]; cbn [flat_map]; [constructor|].
+    cbn [map snd] in Hnd. inversion Hnd as [|? ? Hb Hr]; subst. specialize (IH Hr). cbn [fst snd].
+    destruct (nassoc c (map kw_conv its)); cbn [app]; [|exact IH].
+    unfold keys in *. cbn [map fst]. constructor; [|exact IH].
+    intros Hin. apply Hb. apply in_map_iff in Hin. destruct Hin as ([k v] & <- & Hin). cbn [fst].
+    apply in_flat_map in Hin. destruct Hin as ([c' b'] & Hcb & Hin). cbn [fst snd] in Hin.
+    destruct (nassoc c' (map kw_conv its)); [|destruct Hin]. destruct Hin as [E|[]]. injection E as -> _.
+    change k with (snd (c', k)). apply in_map. exact Hcb.
+  Qed.
+
+  Lemma kw_expected_nonempty its : valid_items its -> its <> [] -> kw_expected its <> [].
+  Proof.
+    intros Hv Hne. destruct its as [|[n v] r]; [contradiction|]. destruct (proj1 Hv n v (or_introl eq_refl)) as (K & Hs).
+    destruct (kw_conv_spells n v K Hs) as (c & Hc & _ & _ & _).
+    assert (Hin : In (K, sg (sp_odd n c) v) (kw_expected ((n, v) :: r))).
+    { apply (kw_expected_in _ K _ Hv). exists n, v, c. split; [left; reflexivity | auto]. }
+    intros E. rewrite E in Hin. destruct Hin.
+  Qed.
+
+  (* a keyword with a letter that is no generator: KeyError *)
+  Lemma kw_fold_unknown n (ks : list name) : In n ks -> (exists g, In g n /\ ~ In g (alg_vecs A)) ->
+    forall acc, exists e, fold_left (fun acc k => d <- acc ;; kw_step O A d k) ks acc = Err e.
+  Proof.
+    intros Hin Hbad. induction ks as [|k r IH]; intros acc; [destruct Hin|]. cbn [fold_left].
+    destruct Hin as [->|Hin]; [|apply IH; exact Hin].
+    destruct acc as [d|e]; cbn [bind].
+    - unfold kw_step. assert (Hc : canon2bin A n = None).
+      { destruct (canon2bin A n) as [b|] eqn:E; [|reflexivity]. exfalso.
+        destruct Hbad as (g & Hg & Hgv). apply Hgv.
+        destruct (canon2bin_spells A Hwf n b E) as [[_ Hb] _].
+        apply (name_bin_in _ (wf_vecs_nodup A Hwf) n b Hb g Hg). }
+      rewrite Hc, (blade2canon_nonblade A Hwf n Hbad). exists EKey. apply fold_err_stays.
+    - exists e. apply fold_err_stays.
+  Qed.
+End Keywords.
+
+(* ====================================================================================== *)
+(** * 7. The construction forms: IFF characterisations *)
+
+Section Forms.
+  Variable R : Type.
+  Variables (rO rI : R) (radd rmul rsub : R -> R -> R) (ropp : R -> R).
+  Hypothesis Rth : ring_theory rO rI radd rmul rsub ropp (@eq R).
+  Add Ring Rring15d : Rth.
+  Local Notation O := (mkOps R radd rsub rmul ropp rO rI).
+  Local Notation sg := (sg R ropp).
+  Variable A : alg.
+  Hypothesis Hwf : wf_alg A = true.
+  Variable sym : Z -> R.
+  Local Notation L := (alg_len A).
+  Local Notation allg := (map Z.of_nat (all_grades A)).
+
+  Lemma bind_assoc {X Y W} (x : res X) (f : X -> res Y) (g : Y -> res W) :
+    bind (bind x f) g = bind x (fun a => bind (f a) g).
+  Proof. destruct x; reflexivity. Qed.
+
+  Lemma construct_with_keys v ks nm g0 its :
+    construct O A sym (mkInput v (Some ks) nm g0 its) = (zs <- sanitize A ks ;; core A sym (Some zs) v nm g0).
+  Proof.
+    unfold construct. cbn [i_items i_keys i_values i_name i_grades].
+    destruct its; cbn [bind]; rewrite bind_assoc; reflexivity.
+  Qed.
+
+  Lemma construct_no_keys v nm g0 its : (v <> VNone \/ its = []) ->
+    construct O A sym (mkInput v None nm g0 its) = core A sym None v nm g0.
+  Proof.
+    intros H. unfold construct. cbn [i_items i_keys i_values i_name i_grades].
+    destruct its as [|i r]; [reflexivity|]. destruct v; [destruct H as [H|H]; [contradiction | discriminate] | reflexivity | reflexivity].
+  Qed.
+
+  Lemma construct_keywords nm g0 its : its <> [] ->
+    construct O A sym (mkInput VNone None nm g0 its)
+    = (kv <- kw_normalise O A its ;; zs <- sanitize A (fst kv) ;; core A sym (Some zs) (VList (snd kv)) nm g0).
+  Proof.
+    intros H. unfold construct. cbn [i_items i_keys i_values i_name i_grades].
+    destruct its as [|i r]; [contradiction|]. rewrite !bind_assoc.
+    destruct (kw_normalise O A (i :: r)) as [[ks vs]|e]; cbn [bind fst snd]; [|reflexivity].
+    rewrite bind_assoc. reflexivity.
+  Qed.
+
+  Lemma sanitize_nonempty ks zs : ks <> [] -> sanitize A ks = Ok zs -> zs <> [].
+  Proof.
+    intros Hk Hs Hz. apply (sanitize_length A Hwf) in Hs. subst zs. destruct ks; [contradiction | discriminate].
+  Qed.
+
+  (* ---- key / value sequences ---- *)
+  Theorem construct_kv_iff ks vs nm g0 its m : ks <> [] -> (nm = false \/ vs <> []) ->
+    (construct O A sym (mkInput (VList vs) (Some ks) nm g0 its) = Ok m <->
+     exists zs full, sanitize A ks = Ok zs
+       /\ (forall g, g0 = Some g -> grade_range_ok A g = true)
+       /\ ifg A (declared g0 (grades_of_keys zs)) = Ok full
+       /\ length zs = length vs /\ incl zs full /\ (a_graded A = true -> zs = full)
+       /\ m = combine zs vs).
+  Proof.
+    intros Hk Hnv. rewrite construct_with_keys, bind_ok. split.
+    - intros (zs & Hs & Hc). apply (core_keyed R A sym zs vs nm g0 m (sanitize_nonempty ks zs Hk Hs) Hnv) in Hc.
+      destruct Hc as (full & H). exists zs, full. split; [exact Hs | exact H].
+    - intros (zs & full & Hs & H). exists zs. split; [exact Hs|].
+      apply (core_keyed R A sym zs vs nm g0 m (sanitize_nonempty ks zs Hk Hs) Hnv). exists full. exact H.
+  Qed.
+
+  (* ---- name= with keys ---- *)
+  Theorem construct_name_keys_iff ks v g0 its m : ks <> [] -> novalues R v ->
+    (construct O A sym (mkInput v (Some ks) true g0 its) = Ok m <->
+     exists zs full, sanitize A ks = Ok zs
+       /\ (forall g, g0 = Some g -> grade_range_ok A g = true)
+       /\ ifg A (declared g0 (grades_of_keys zs)) = Ok full
+       /\ incl zs full /\ (a_graded A = true -> zs = full)
+       /\ m = map (fun k => (k, sym k)) zs).
+  Proof.
+    intros Hk Hv. rewrite construct_with_keys, bind_ok. split.
+    - intros (zs & Hs & Hc). apply (core_named_keyed R A Hwf sym zs v g0 m (sanitize_nonempty ks zs Hk Hs) Hv) in Hc.
+      destruct Hc as (full & H). exists zs, full. split; [exact Hs | exact H].
+    - intros (zs & full & Hs & H). exists zs. split; [exact Hs|].
+      apply (core_named_keyed R A Hwf sym zs v g0 m (sanitize_nonempty ks zs Hk Hs) Hv). exists full. exact H.
+  Qed.
+
+  (* ---- a mapping ---- *)
+  Theorem construct_map_iff mp nm g0 its m :
+    (construct O A sym (mkInput (VMap mp) None nm g0 its) = Ok m <->
+     exists zs full, sanitize A (map fst mp) = Ok zs
+       /\ (forall g, g0 = Some g -> grade_range_ok A g = true)
+       /\ ifg A (declared g0 allg) = Ok full /\ incl zs full
+       /\ (a_graded A = true -> mp <> [] -> ifg A (grades_of_keys zs) = Ok zs)
+       /\ m = combine zs (map snd mp)).
+  Proof.
+    rewrite construct_no_keys by (left; discriminate). rewrite (core_unkeyed R A sym), (core_tail_map R A Hwf sym).
+    split.
+    - intros (Hr & zs & full & H1 & H2 & H3 & H4 & H5). exists zs, full. repeat (split; [assumption|]). assumption.
+    - intros (zs & full & H1 & Hr & H2 & H3 & H4 & H5). split; [exact Hr|]. exists zs, full.
+      repeat (split; [assumption|]). assumption.
+  Qed.
+
+  (* ---- a value list for declared (or all) grades ---- *)
+  Theorem construct_grades_iff vs nm g0 its m : (nm = false \/ vs <> []) ->
+    (construct O A sym (mkInput (VList vs) None nm g0 its) = Ok m <->
+     exists full, (forall g, g0 = Some g -> grade_range_ok A g = true)
+       /\ ifg A (declared g0 allg) = Ok full
+       /\ ((length vs = length full /\ m = combine full vs)
+           \/ (length vs <> length full /\ vs = [] /\ m = []))).
+  Proof.
+    intros Hnv. rewrite construct_no_keys by (left; discriminate).
+    rewrite (core_unkeyed R A sym), (core_tail_unkeyed_values R A sym vs nm _ m Hnv). split.
+    - intros (Hr & full & H1 & H2). exists full. auto.
+    - intros (full & Hr & H1 & H2). split; [exact Hr|]. exists full. auto.
+  Qed.
+
+  (* ---- name= alone ---- *)
+  Theorem construct_name_iff v g0 m : novalues R v ->
+    (construct O A sym (mkInput v None true g0 []) = Ok m <->
+     exists full, (forall g, g0 = Some g -> grade_range_ok A g = true)
+       /\ ifg A (declared g0 allg) = Ok full
+       /\ m = map (fun k => (k, sym k)) full).
+  Proof.
+    intros Hv. rewrite construct_no_keys by (right; reflexivity).
+    rewrite (core_unkeyed R A sym), (core_tail_unkeyed_name R A Hwf sym v _ m Hv). split.
+    - intros (Hr & full & H1 & H2). exists full. auto.
+    - intros (full & Hr & H1 & H2). split; [exact Hr|]. exists full. auto.
+  Qed.
+
+  (* ---- keyword blades ---- *)
+  Local Notation kwE := (kw_expected R ropp A).
+  Theorem construct_kw_iff its nm g0 m : its <> [] -> valid_items R A its ->
+    (construct O A sym (mkInput VNone None nm g0 its) = Ok m <->
+     exists full, (forall g, g0 = Some g -> grade_range_ok A g = true)
+       /\ ifg A (declared g0 (grades_of_keys (keys (kwE its)))) = Ok full
+       /\ incl (keys (kwE its)) full /\ (a_graded A = true -> keys (kwE its) = full)
+       /\ m = kwE its).
+  Proof.
+    intros Hne Hv. rewrite (construct_keywords nm g0 its Hne), (kw_normalise_spec R rO rI radd rmul rsub ropp A Hwf its Hv).
+    destruct (kw_collect_names R ropp A Hwf its) as (Hs & Hcomb & Hnil & Hlen). cbn zeta in Hs, Hcomb, Hnil, Hlen.
+    pose proof (kw_expected_nonempty R ropp A Hwf its Hv Hne) as HE.
+    destruct (kw_collect A (map (kw_conv R ropp A) its)) as [|x kv] eqn:Ekv.
+    { exfalso. apply HE. apply Hnil. reflexivity. }
+    cbn [bind fst snd]. rewrite Hs. cbn [bind].
+    assert (Hkne : keys (kwE its) <> []).
+    { intros E. apply HE. destruct (kwE its); [reflexivity | discriminate]. }
+    rewrite (core_keyed R A sym (keys (kwE its)) (map snd (x :: kv)) nm g0 m Hkne) by (right; discriminate).
+    rewrite Hcomb. split.
+    - intros (full & Hr & H1 & _ & H3 & H4 & H5). exists full. repeat (split; [assumption|]). assumption.
+    - intros (full & Hr & H1 & H3 & H4 & H5). exists full. split; [exact Hr|]. split; [exact H1|].
+      split; [exact Hlen|]. repeat (split; [assumption|]). assumption.
+  Qed.
+End Forms.
+
+(* ====================================================================================== *)
+(** * 8. Round trips and the error clauses of the property *)
+
+Section Roundtrip.
+  Variable R : Type.
+  Variables (rO rI : R) (radd rmul rsub : R -> R -> R) (ropp : R -> R).
+  Hypothesis Rth : ring_theory rO rI radd rmul rsub ropp (@eq R).
+  Add Ring Rring15e : Rth.
+  Local Notation O := (mkOps R radd rsub rmul ropp rO rI).
+  Local Notation sg := (sg R ropp).
+  Variable A : alg.
+  Hypothesis Hwf : wf_alg A = true.
+  Variable sym : Z -> R.
+  Local Notation L := (alg_len A).
+  Local Notation allg := (map Z.of_nat (all_grades A)).
+  Local Notation kwE := (kw_expected R ropp A).
+
+  (* ---------- reading back a zip of keys and values ---------- *)
+  Lemma keys_combine (zs : list Z) (vs : list R) : length zs = length vs ->
+    keys (combine zs vs) = zs /\ map snd (combine zs vs) = vs.
+  Proof.
+    revert vs. induction zs as [|z r IH]; intros [|v vr] H; cbn [length] in H; try discriminate.
+    - split; reflexivity.
+    - injection H as H. destruct (IH vr H) as [H1 H2]. unfold keys in *. cbn [combine map fst snd].
+      rewrite H1, H2. split; reflexivity.
+  Qed.
+
+  Lemma keys_combine_incl (zs : list Z) (vs : list R) : incl (keys (combine zs vs)) zs.
+  Proof.
+    revert vs. induction zs as [|z r IH]; intros vs k Hk; [destruct Hk|].
+    destruct vs as [|v vr]; [destruct Hk|]. unfold keys in Hk. cbn [combine map fst] in Hk.
+    destruct Hk as [<-|Hk]; [left; reflexivity | right; apply (IH vr); exact Hk].
+  Qed.
+
+  Lemma nth_combine_in (zs : list Z) (vs : list R) i k v :
+    nth_error zs i = Some k -> nth_error vs i = Some v -> In (k, v) (combine zs vs).
+  Proof.
+    revert zs vs. induction i as [|i IH]; intros [|z r] [|w vr] Hz Hv; cbn [nth_error] in *; try discriminate.
+    - injection Hz as <-. injection Hv as <-. left. reflexivity.
+    - right. apply IH; assumption.
+  Qed.
+
+  (* the read-back of  m = zip(zs, vs)  through the first-match accessors *)
+  Definition reads_back (m : mv R) (zs : list Z) (vs : list R) : Prop :=
+    keys m = zs /\ map snd m = vs /\ mv_items m = combine zs vs
+    /\ (NoDup zs ->
+        (forall i K v, nth_error zs i = Some K -> nth_error vs i = Some v ->
+           coeff O K m = v /\ contains A m (KInt K) = Ok true
+           /\ forall c, bin2canon A K = Some c -> getattr O A m (SName c) = Ok v)
+        /\ (forall K, ~ In K zs -> coeff O K m = rO /\ contains A m (KInt K) = Ok false)).
+
+  Lemma combine_reads_back zs vs : length zs = length vs -> reads_back (combine zs vs) zs vs.
+  Proof.
+    intros Hl. destruct (keys_combine zs vs Hl) as [Hk Hv]. unfold reads_back.
+    split; [exact Hk|]. split; [exact Hv|]. split; [reflexivity|]. intros Hnd. split.
+    - intros i K v Hz Hvv. pose proof (nth_combine_in zs vs i K v Hz Hvv) as Hin.
+      assert (Hc : coeff O K (combine zs vs) = v) by (apply (c_in R rO rI radd rmul rsub ropp); [rewrite Hk; exact Hnd | exact Hin]).
+      split; [exact Hc|]. split.
+      + cbn [contains]. rewrite Hk. f_equal. apply zin_true_iff. apply (nth_error_In zs i Hz).
+      + intros c Hcn. rewrite (getattr_canonical R rO rI radd rmul rsub ropp Rth A Hwf _ K c Hcn), Hc. reflexivity.
+    - intros K HK. split.
+      + apply (c_notin R rO rI radd rmul rsub ropp). rewrite Hk. exact HK.
+      + cbn [contains]. rewrite Hk. f_equal. apply zin_false_iff. exact HK.
+  Qed.
+
+  (* ---------- key / value sequences ---------- *)
+  Theorem roundtrip_keysvalues ks vs nm g0 its m : ks <> [] -> (nm = false \/ vs <> []) ->
+    construct O A sym (mkInput (VList vs) (Some ks) nm g0 its) = Ok m ->
+    exists zs, Forall2 (key_denotes A) ks zs /\ length zs = length vs /\ m = combine zs vs
+      /\ (forall K, In K zs -> 0 <= K < L) /\ reads_back m zs vs.
+  Proof.
+    intros Hk Hnv H. apply (construct_kv_iff R rO rI radd rmul rsub ropp A Hwf sym ks vs nm g0 its m Hk Hnv) in H.
+    destruct H as (zs & full & Hs & _ & Hf & Hl & Hi & _ & ->). exists zs.
+    split; [apply (sanitize_denotes A Hwf ks zs Hs)|]. split; [exact Hl|]. split; [reflexivity|].
+    split; [intros K HK; apply (ifg_in A Hwf _ full K Hf); apply Hi; exact HK|].
+    apply combine_reads_back. exact Hl.
+  Qed.
+
+  (* ---------- a mapping ---------- *)
+  Theorem roundtrip_mapping mp nm g0 its m :
+    construct O A sym (mkInput (VMap mp) None nm g0 its) = Ok m ->
+    exists zs, Forall2 (key_denotes A) (map fst mp) zs /\ m = combine zs (map snd mp)
+      /\ (forall K, In K zs -> 0 <= K < L) /\ reads_back m zs (map snd mp).
+  Proof.
+    intros H. apply (construct_map_iff R rO rI radd rmul rsub ropp A Hwf sym mp nm g0 its m) in H.
+    destruct H as (zs & full & Hs & _ & Hf & Hi & _ & ->). exists zs.
+    split; [apply (sanitize_denotes A Hwf _ zs Hs)|]. split; [reflexivity|].
+    split; [intros K HK; apply (ifg_in A Hwf _ full K Hf); apply Hi; exact HK|].
+    apply combine_reads_back. rewrite (sanitize_length A Hwf _ _ Hs), !map_length. reflexivity.
+  Qed.
+
+  (* ---------- a value list for the declared (or all) grades ---------- *)
+  Theorem roundtrip_grades vs nm g0 its m : vs <> [] ->
+    construct O A sym (mkInput (VList vs) None nm g0 its) = Ok m ->
+    exists full, ifg A (declared g0 allg) = Ok full /\ length full = length vs /\ NoDup full
+      /\ m = combine full vs /\ reads_back m full vs.
+  Proof.
+    intros Hv H. apply (construct_grades_iff R rO rI radd rmul rsub ropp A sym vs nm g0 its m (or_intror Hv)) in H.
+    destruct H as (full & _ & Hf & [[Hl ->]|[_ [E _]]]); [|contradiction].
+    exists full. split; [exact Hf|]. split; [symmetry; exact Hl|]. split; [apply (ifg_nodup A Hwf _ full Hf)|].
+    split; [reflexivity|]. apply combine_reads_back. symmetry. exact Hl.
+  Qed.
+
+  (* ---------- by name ---------- *)
+  Theorem roundtrip_name v g0 m : novalues R v ->
+    construct O A sym (mkInput v None true g0 []) = Ok m ->
+    exists full, ifg A (declared g0 allg) = Ok full /\ NoDup full
+      /\ m = combine full (map sym full) /\ reads_back m full (map sym full).
+  Proof.
+    intros Hv H. apply (construct_name_iff R rO rI radd rmul rsub ropp A Hwf sym v g0 m Hv) in H.
+    destruct H as (full & _ & Hf & ->). exists full. split; [exact Hf|]. split; [apply (ifg_nodup A Hwf _ full Hf)|].
+    rewrite <- combine_map_self. split; [reflexivity|]. apply combine_reads_back. rewrite map_length. reflexivity.
+  Qed.
+
+  Theorem roundtrip_name_keys ks v g0 its m : ks <> [] -> novalues R v ->
+    construct O A sym (mkInput v (Some ks) true g0 its) = Ok m ->
+    exists zs, Forall2 (key_denotes A) ks zs
+      /\ m = combine zs (map sym zs) /\ reads_back m zs (map sym zs).
+  Proof.
+    intros Hk Hv H. apply (construct_name_keys_iff R rO rI radd rmul rsub ropp A Hwf sym ks v g0 its m Hk Hv) in H.
+    destruct H as (zs & full & Hs & _ & Hf & Hi & _ & ->). exists zs.
+    split; [apply (sanitize_denotes A Hwf ks zs Hs)|].
+    rewrite <- combine_map_self. split; [reflexivity|]. apply combine_reads_back. rewrite map_length. reflexivity.
+  Qed.
+
+  (* ---------- keyword blades ---------- *)
+  Theorem roundtrip_keywords its nm g0 m : its <> [] -> valid_items R A its ->
+    construct O A sym (mkInput VNone None nm g0 its) = Ok m ->
+    NoDup (keys m)
+    /\ (forall n v K c, In (n, v) its -> spells A n K -> bin2canon A K = Some c ->
+          In K (keys m) /\ coeff O K m = sg (sp_odd n c) v /\ getattr O A m (SName n) = Ok v
+          /\ getattr O A m (SName c) = Ok (sg (sp_odd n c) v))
+    /\ (forall K, In K (keys m) -> exists n v, In (n, v) its /\ spells A n K)
+    /\ (forall K, (forall n v, In (n, v) its -> ~ spells A n K) -> coeff O K m = rO).
+  Proof.
+    intros Hne Hv H. apply (construct_kw_iff R rO rI radd rmul rsub ropp A Hwf sym its nm g0 m Hne Hv) in H.
+    destruct H as (full & _ & _ & _ & _ & ->).
+    pose proof (kw_expected_nodup R ropp A Hwf its) as Hnd. split; [exact Hnd|]. split; [|split].
+    - intros n v K c Hin Hs Hc.
+      assert (HinE : In (K, sg (sp_odd n c) v) (kwE its)).
+      { apply (kw_expected_in R ropp A Hwf its K _ Hv). exists n, v, c. auto. }
+      assert (Hco : coeff O K (kwE its) = sg (sp_odd n c) v) by (apply (c_in R rO rI radd rmul rsub ropp); assumption).
+      split; [change K with (fst (K, sg (sp_odd n c) v)); apply in_map; exact HinE|]. split; [exact Hco|]. split.
+      + rewrite (getattr_spells R rO rI radd rmul rsub ropp Rth A Hwf _ n K c Hs Hc), Hco.
+        rewrite (sg_invol R rO rI radd rmul rsub ropp Rth). reflexivity.
+      + rewrite (getattr_canonical R rO rI radd rmul rsub ropp Rth A Hwf _ K c Hc), Hco. reflexivity.
+    - intros K HK. unfold keys in HK. apply in_map_iff in HK. destruct HK as ([K' val] & E & Hin). cbn [fst] in E. subst K'.
+      apply (kw_expected_in R ropp A Hwf its K val Hv) in Hin. destruct Hin as (n & v & c & Hin & Hs & _). exists n, v. auto.
+    - intros K HK. apply (c_notin R rO rI radd rmul rsub ropp). intros Hin.
+      unfold keys in Hin. apply in_map_iff in Hin. destruct Hin as ([K' val] & E & Hin). cbn [fst] in E. subst K'.
+      apply (kw_expected_in R ropp A Hwf its K val Hv) in Hin. destruct Hin as (n & v & c & Hin & Hs & _).
+      apply (HK n v Hin Hs).
+  Qed.
+End Roundtrip.
+
+Section Errors.
+  Variable R : Type.
+  Variables (rO rI : R) (radd rmul rsub : R -> R -> R) (ropp : R -> R).
+  Hypothesis Rth : ring_theory rO rI radd rmul rsub ropp (@eq R).
+  Add Ring Rring15f : Rth.
+  Local Notation O := (mkOps R radd rsub rmul ropp rO rI).
+  Local Notation sg := (sg R ropp).
+  Variable A : alg.
+  Hypothesis Hwf : wf_alg A = true.
+  Variable sym : Z -> R.
+  Local Notation L := (alg_len A).
+  Local Notation allg := (map Z.of_nat (all_grades A)).
+  Local Notation build := (construct O A sym).
+
+  (* ---------- what holds of EVERY successful construction, whatever the mixture of arguments ---------- *)
+  Lemma core_tail_sound kk v nm G m : core_tail R A sym kk v nm G = Ok m ->
+    exists full, ifg A G = Ok full /\ incl (keys m) full.
+  Proof.
+    unfold core_tail. intros H. apply bind_ok in H. destruct H as (chk & _ & H).
+    apply bind_ok in H. destruct H as ([keysk values] & _ & H).
+    apply bind_ok in H. destruct H as (keys8 & _ & H).
+    apply bind_ok in H. destruct H as (full & Hf & H).
+    destruct (forallb (fun k => zin k full) keys8) eqn:Ei; [|discriminate]. injection H as <-.
+    exists full. split; [exact Hf|]. apply forallb_zin_incl in Ei.
+    intros k Hk. apply Ei. apply (keys_combine_incl R keys8 values k Hk).
+  Qed.
+
+  Lemma construct_core inp m : build inp = Ok m ->
+    exists keys1 v, core A sym keys1 v (i_name inp) (i_grades inp) = Ok m.
+  Proof.
+    unfold construct. intros H. apply bind_ok in H. destruct H as ([keys0 values0] & _ & H).
+    apply bind_ok in H. destruct H as (keys1 & _ & H). exists keys1, values0. exact H.
+  Qed.
+
+  Theorem stored_keys_sound inp m : build inp = Ok m ->
+    (forall K, In K (keys m) -> 0 <= K < L)
+    /\ (forall g, i_grades inp = Some g ->
+          grade_range_ok A g = true /\ grades_ok A (map Z.to_nat g) = true
+          /\ forall K, In K (keys m) -> grade_in (map Z.to_nat g) K = true).
+  Proof.
+    intros H. apply construct_core in H. destruct H as (keys1 & v & H).
+    rewrite (core_split R A sym) in H. apply bind_ok in H. destruct H as (G & HG & Ht).
+    apply core_tail_sound in Ht. destruct Ht as (full & Hf & Hi). split.
+    - intros K HK. apply (ifg_in A Hwf G full K Hf). apply Hi. exact HK.
+    - intros g Eg. rewrite Eg in HG. unfold grades_step in HG.
+      assert (HG' : (if grade_range_ok A g then Ok g else Err EValue) = Ok G).
+      { destruct (i_name inp); destruct keys1; exact HG. }
+      destruct (grade_range_ok A g) eqn:Er; [|discriminate]. injection HG' as <-.
+      split; [reflexivity|]. split; [apply (ifg_inv A g full Hf)|].
+      intros K HK. apply (ifg_in A Hwf g full K Hf). apply Hi. exact HK.
+  Qed.
+
+  (* invalid grades (out of 0..d, or not strictly increasing) raise, in every construction form *)
+  Theorem err_invalid_grades inp g : i_grades inp = Some g ->
+    grade_range_ok A g = false \/ grades_ok A (map Z.to_nat g) = false ->
+    exists e, build inp = Err e.
+  Proof.
+    intros Eg Hbad. apply not_ok_err. intros m H.
+    destruct (proj2 (stored_keys_sound inp m H) g Eg) as (H1 & H2 & _). destruct Hbad; congruence.
+  Qed.
+
+  (* ---------- length mismatch ---------- *)
+  Theorem err_length_keysvalues ks vs nm g0 its : ks <> [] -> (nm = false \/ vs <> []) ->
+    length ks <> length vs -> exists e, build (mkInput (VList vs) (Some ks) nm g0 its) = Err e.
+  Proof.
+    intros Hk Hnv Hl. apply not_ok_err. intros m H.
+    destruct (roundtrip_keysvalues R rO rI radd rmul rsub ropp Rth A Hwf sym ks vs nm g0 its m Hk Hnv H)
+      as (zs & HF & Hlen & _). apply Hl. rewrite <- Hlen.
+    clear - HF. induction HF; [reflexivity | cbn [length]; congruence].
+  Qed.
+
+  Theorem err_length_grades vs nm g0 its full : vs <> [] ->
+    ifg A (declared g0 allg) = Ok full -> length vs <> length full ->
+    exists e, build (mkInput (VList vs) None nm g0 its) = Err e.
+  Proof.
+    intros Hv Hf Hl. apply not_ok_err. intros m H.
+    destruct (roundtrip_grades R rO rI radd rmul rsub ropp Rth A Hwf sym vs nm g0 its m Hv H) as (full' & Hf' & Hlen & _).
+    assert (full' = full) by congruence. subst full'. congruence.
+  Qed.
+
+  (* ---------- a key outside the declared grades ---------- *)
+  Theorem err_outside_keysvalues ks vs nm g its zs K : ks <> [] -> (nm = false \/ vs <> []) ->
+    Forall2 (key_denotes A) ks zs -> In K zs -> grade_in (map Z.to_nat g) K = false ->
+    exists e, build (mkInput (VList vs) (Some ks) nm (Some g) its) = Err e.
+  Proof.
+    intros Hk Hnv HF HK Hg. apply not_ok_err. intros m H.
+    destruct (roundtrip_keysvalues R rO rI radd rmul rsub ropp Rth A Hwf sym ks vs nm (Some g) its m Hk Hnv H)
+      as (zs' & HF' & _ & _ & _ & Hrb). destruct Hrb as (Hkeys & _).
+    assert (Hz : zs' = zs) by (apply (denotes_functional A ks); assumption). rewrite Hz in Hkeys.
+    destruct (proj2 (stored_keys_sound _ m H) g eq_refl) as (_ & _ & Hin).
+    rewrite (Hin K) in Hg; [discriminate | rewrite Hkeys; exact HK].
+  Qed.
+
+  Theorem err_outside_mapping mp nm g its zs K :
+    Forall2 (key_denotes A) (map fst mp) zs -> In K zs -> grade_in (map Z.to_nat g) K = false ->
+    exists e, build (mkInput (VMap mp) None nm (Some g) its) = Err e.
+  Proof.
+    intros HF HK Hg. apply not_ok_err. intros m H.
+    destruct (roundtrip_mapping R rO rI radd rmul rsub ropp Rth A Hwf sym mp nm (Some g) its m H)
+      as (zs' & HF' & _ & _ & Hrb). destruct Hrb as (Hkeys & _).
+    assert (Hz : zs' = zs) by (apply (denotes_functional A (map fst mp)); assumption). rewrite Hz in Hkeys.
+    destruct (proj2 (stored_keys_sound _ m H) g eq_refl) as (_ & _ & Hin).
+    rewrite (Hin K) in Hg; [discriminate | rewrite Hkeys; exact HK].
+  Qed.
+
+  Theorem err_outside_keywords (its : list (name * R)) nm g (n : name) v K : valid_items R A its ->
+    In (n, v) its -> spells A n K -> grade_in (map Z.to_nat g) K = false ->
+    exists e, build (mkInput VNone None nm (Some g) its) = Err e.
+  Proof.
+    intros Hv Hin Hs Hg. apply not_ok_err. intros m H.
+    assert (Hne : its <> []) by (intros E; rewrite E in Hin; destruct Hin).
+    destruct (roundtrip_keywords R rO rI radd rmul rsub ropp Rth A Hwf sym its nm (Some g) m Hne Hv H) as (_ & Hall & _).
+    destruct (bin2canon_total A Hwf K (spells_range A Hwf n K Hs)) as (c & Hc & _).
+    destruct (Hall n v K c Hin Hs Hc) as (HK & _).
+    destruct (proj2 (stored_keys_sound _ m H) g eq_refl) as (_ & _ & Hin').
+    rewrite (Hin' K HK) in Hg. discriminate.
+  Qed.
+
+  (* ---------- graded mode: only complete grades, in canonical order ---------- *)
+  Theorem graded_complete : a_graded A = true ->
+    (forall ks vs nm g0 its m, ks <> [] -> (nm = false \/ vs <> []) ->
+       build (mkInput (VList vs) (Some ks) nm g0 its) = Ok m ->
+       ifg A (declared g0 (grades_of_keys (keys m))) = Ok (keys m))
+    /\ (forall mp nm g0 its m, mp <> [] -> build (mkInput (VMap mp) None nm g0 its) = Ok m ->
+       ifg A (grades_of_keys (keys m)) = Ok (keys m))
+    /\ (forall its nm g0 m, its <> [] -> valid_items R A its -> build (mkInput VNone None nm g0 its) = Ok m ->
+       ifg A (declared g0 (grades_of_keys (keys m))) = Ok (keys m))
+    /\ (forall ks v g0 its m, ks <> [] -> novalues R v -> build (mkInput v (Some ks) true g0 its) = Ok m ->
+       ifg A (declared g0 (grades_of_keys (keys m))) = Ok (keys m)).
+  Proof.
+    intros Hg. split; [|split; [|split]].
+    - intros ks vs nm g0 its m Hk Hnv H.
+      apply (construct_kv_iff R rO rI radd rmul rsub ropp A Hwf sym ks vs nm g0 its m Hk Hnv) in H.
+      destruct H as (zs & full & _ & _ & Hf & Hl & _ & Hgr & ->).
+      rewrite (proj1 (keys_combine R zs vs Hl)). rewrite Hf. f_equal. symmetry. apply Hgr. exact Hg.
+    - intros mp nm g0 its m Hmp H.
+      apply (construct_map_iff R rO rI radd rmul rsub ropp A Hwf sym mp nm g0 its m) in H.
+      destruct H as (zs & full & Hs & _ & _ & _ & Hgr & ->).
+      assert (Hl : length zs = length (map snd mp)) by (rewrite (sanitize_length A Hwf _ _ Hs), !map_length; reflexivity).
+      rewrite (proj1 (keys_combine R zs _ Hl)). apply Hgr; assumption.
+    - intros its nm g0 m Hne Hv H.
+      apply (construct_kw_iff R rO rI radd rmul rsub ropp A Hwf sym its nm g0 m Hne Hv) in H.
+      destruct H as (full & _ & Hf & _ & Hgr & ->). rewrite Hf. f_equal. symmetry. apply Hgr. exact Hg.
+    - intros ks v g0 its m Hk Hv H.
+      apply (construct_name_keys_iff R rO rI radd rmul rsub ropp A Hwf sym ks v g0 its m Hk Hv) in H.
+      destruct H as (zs & full & _ & _ & Hf & _ & Hgr & ->).
+      assert (Hkeys : keys (map (fun k => (k, sym k)) zs) = zs).
+      { unfold keys. rewrite map_map. cbn [fst]. apply map_id. }
+      rewrite Hkeys, Hf. f_equal. symmetry. apply Hgr. exact Hg.
+  Qed.
+
+  Theorem err_graded_incomplete ks vs nm g0 its zs : a_graded A = true -> ks <> [] -> (nm = false \/ vs <> []) ->
+    Forall2 (key_denotes A) ks zs -> ifg A (declared g0 (grades_of_keys zs)) <> Ok zs ->
+    exists e, build (mkInput (VList vs) (Some ks) nm g0 its) = Err e.
+  Proof.
+    intros Hg Hk Hnv HF Hbad. apply not_ok_err. intros m H.
+    pose proof (proj1 (graded_complete Hg) ks vs nm g0 its m Hk Hnv H) as Hc.
+    destruct (roundtrip_keysvalues R rO rI radd rmul rsub ropp Rth A Hwf sym ks vs nm g0 its m Hk Hnv H)
+      as (zs' & HF' & _ & _ & _ & Hrb). destruct Hrb as (Hkeys & _).
+    assert (Hz : zs' = zs) by (apply (denotes_functional A ks); assumption). rewrite Hz in Hkeys.
+    rewrite Hkeys in Hc. contradiction.
+  Qed.
+
+  (* ---------- unknown blade names ---------- *)
+  Theorem err_unknown_keyword (its : list (name * R)) nm g0 (n : name) v : In (n, v) its -> (exists g, In g n /\ ~ In g (alg_vecs A)) ->
+    exists e, build (mkInput VNone None nm g0 its) = Err e.
+  Proof.
+    intros Hin Hbad. assert (Hne : its <> []) by (intros E; rewrite E in Hin; destruct Hin).
+    rewrite (construct_keywords R rO rI radd rmul rsub ropp A sym nm g0 its Hne). unfold kw_normalise.
+    destruct (kw_fold_unknown R rO rI radd rmul rsub ropp A Hwf n (map fst its)
+                (in_map fst its (n, v) Hin) Hbad (Ok its)) as (e & He).
+    rewrite He. exists e. reflexivity.
+  Qed.
+
+  Lemma sanitize_unknown ks n : In (KName n) ks -> canon2bin A n = None -> exists e, sanitize A ks = Err e.
+  Proof.
+    intros Hin Hn. apply not_ok_err. intros zs H. apply (sanitize_denotes A Hwf) in H.
+    induction H as [|k z ks zs Hk _ IH]; [destruct Hin|]. destruct Hin as [->|Hin]; [|apply IH; exact Hin].
+    cbn [key_denotes] in Hk. congruence.
+  Qed.
+
+  Theorem err_unknown_key v ks nm g0 its n : In (KName n) ks -> canon2bin A n = None ->
+    exists e, build (mkInput v (Some ks) nm g0 its) = Err e.
+  Proof.
+    intros Hin Hn. rewrite (construct_with_keys R rO rI radd rmul rsub ropp A sym).
+    destruct (sanitize_unknown ks n Hin Hn) as (e & ->). exists e. reflexivity.
+  Qed.
+
+  Theorem err_unknown_mapkey mp nm g0 its n : In (KName n) (map fst mp) -> canon2bin A n = None ->
+    exists e, build (mkInput (VMap mp) None nm g0 its) = Err e.
+  Proof.
+    intros Hin Hn. apply not_ok_err. intros m H.
+    apply (construct_map_iff R rO rI radd rmul rsub ropp A Hwf sym mp nm g0 its m) in H.
+    destruct H as (zs & full & Hs & _). destruct (sanitize_unknown _ n Hin Hn) as (e & He). congruence.
+  Qed.
+End Errors.
+
+(* ---------- the constructor raises EXACTLY on inconsistent input, form by form ---------- *)
+Lemma err_iff_gen {X} (r : res X) (P : X -> Prop) :
+  (forall m, r = Ok m <-> P m) -> ((exists e, r = Err e) <-> ~ exists m, P m).
+Proof.
+  intros H. split.
+  - intros (e & He) (m & Hm). apply H in Hm. congruence.
+  - intros Hn. apply not_ok_err. intros m Hm. apply Hn. exists m. apply H. exact Hm.
+Qed.
+
+Section ErrorsIff.
+  Variable R : Type.
+  Variables (rO rI : R) (radd rmul rsub : R -> R -> R) (ropp : R -> R).
+  Local Notation O := (mkOps R radd rsub rmul ropp rO rI).
+  Variable A : alg.
+  Hypothesis Hwf : wf_alg A = true.
+  Variable sym : Z -> R.
+  Local Notation allg := (map Z.of_nat (all_grades A)).
+  Local Notation build := (construct O A sym).
+  Local Notation kwE := (kw_expected R ropp A).
+
+  (* consistency of the input, per construction form (what the iff theorems of section 7 say) *)
+  Definition ok_keyed (ks : list key) (g0 : option (list Z)) (nvals : option nat) : Prop :=
+    exists zs full, sanitize A ks = Ok zs
+      /\ (forall g, g0 = Some g -> grade_range_ok A g = true)
+      /\ ifg A (declared g0 (grades_of_keys zs)) = Ok full
+      /\ (forall n, nvals = Some n -> length zs = n)
+      /\ incl zs full /\ (a_graded A = true -> zs = full).
+
+  Definition ok_mapping (mp : list (key * R)) (g0 : option (list Z)) : Prop :=
+    exists zs full, sanitize A (map fst mp) = Ok zs
+      /\ (forall g, g0 = Some g -> grade_range_ok A g = true)
+      /\ ifg A (declared g0 allg) = Ok full /\ incl zs full
+      /\ (a_graded A = true -> mp <> [] -> ifg A (grades_of_keys zs) = Ok zs).
+
+  Definition ok_grades (g0 : option (list Z)) (nvals : option nat) : Prop :=
+    exists full, (forall g, g0 = Some g -> grade_range_ok A g = true)
+      /\ ifg A (declared g0 allg) = Ok full
+      /\ (forall n, nvals = Some n -> n = length full \/ n = 0%nat).
+
+  Definition ok_keywords (its : list (name * R)) (g0 : option (list Z)) : Prop :=
+    exists full, (forall g, g0 = Some g -> grade_range_ok A g = true)
+      /\ ifg A (declared g0 (grades_of_keys (keys (kwE its)))) = Ok full
+      /\ incl (keys (kwE its)) full /\ (a_graded A = true -> keys (kwE its) = full).
+
+  Theorem errors_iff :
+    (forall ks vs nm g0 its, ks <> [] -> (nm = false \/ vs <> []) ->
+       ((exists e, build (mkInput (VList vs) (Some ks) nm g0 its) = Err e) <-> ~ ok_keyed ks g0 (Some (length vs))))
+    /\ (forall ks v g0 its, ks <> [] -> novalues R v ->
+       ((exists e, build (mkInput v (Some ks) true g0 its) = Err e) <-> ~ ok_keyed ks g0 None))
+    /\ (forall mp nm g0 its,
+       ((exists e, build (mkInput (VMap mp) None nm g0 its) = Err e) <-> ~ ok_mapping mp g0))
+    /\ (forall vs nm g0 its, (nm = false \/ vs <> []) ->
+       ((exists e, build (mkInput (VList vs) None nm g0 its) = Err e) <-> ~ ok_grades g0 (Some (length vs))))
+    /\ (forall v g0, novalues R v ->
+       ((exists e, build (mkInput v None true g0 []) = Err e) <-> ~ ok_grades g0 None))
+    /\ (forall its nm g0, its <> [] -> valid_items R A its ->
+       ((exists e, build (mkInput VNone None nm g0 its) = Err e) <-> ~ ok_keywords its g0)).
+  Proof.
+    split; [|split; [|split; [|split; [|split]]]].
+    - intros ks vs nm g0 its Hk Hnv.
+      rewrite (err_iff_gen _ _ (fun m => construct_kv_iff R rO rI radd rmul rsub ropp A Hwf sym ks vs nm g0 its m Hk Hnv)).
+      apply not_iff_compat. unfold ok_keyed. split.
+      + intros (m & zs & full & H1 & H2 & H3 & H4 & H5 & H6 & _). exists zs, full.
+        repeat (split; [assumption|]). split; [intros n E; injection E as <-; exact H4|]. split; assumption.
+      + intros (zs & full & H1 & H2 & H3 & H4 & H5 & H6). exists (combine zs vs), zs, full.
+        repeat (split; [assumption|]). split; [apply H4; reflexivity|]. repeat (split; [assumption|]). reflexivity.
+    - intros ks v g0 its Hk Hv.
+      rewrite (err_iff_gen _ _ (fun m => construct_name_keys_iff R rO rI radd rmul rsub ropp A Hwf sym ks v g0 its m Hk Hv)).
+      apply not_iff_compat. unfold ok_keyed. split.
+      + intros (m & zs & full & H1 & H2 & H3 & H5 & H6 & _). exists zs, full.
+        repeat (split; [assumption|]). split; [intros n E; discriminate|]. split; assumption.
+      + intros (zs & full & H1 & H2 & H3 & _ & H5 & H6). exists (map (fun k => (k, sym k)) zs), zs, full.
+        repeat (split; [assumption|]). reflexivity.
+    - intros mp nm g0 its.
+      rewrite (err_iff_gen _ _ (fun m => construct_map_iff R rO rI radd rmul rsub ropp A Hwf sym mp nm g0 its m)).
+      apply not_iff_compat. unfold ok_mapping. split.
+      + intros (m & zs & full & H1 & H2 & H3 & H4 & H5 & _). exists zs, full. repeat (split; [assumption|]). assumption.
+      + intros (zs & full & H1 & H2 & H3 & H4 & H5). exists (combine zs (map snd mp)), zs, full.
+        repeat (split; [assumption|]). reflexivity.
+    - intros vs nm g0 its Hnv.
+      rewrite (err_iff_gen _ _ (fun m => construct_grades_iff R rO rI radd rmul rsub ropp A sym vs nm g0 its m Hnv)).
+      apply not_iff_compat. unfold ok_grades. split.
+      + intros (m & full & H1 & H2 & H3). exists full. split; [exact H1|]. split; [exact H2|].
+        intros n E. injection E as <-. destruct H3 as [[Hl _]|[_ [-> _]]]; [left; exact Hl | right; reflexivity].
+      + intros (full & H1 & H2 & H3). destruct (H3 _ eq_refl) as [Hl|Hl].
+        * exists (combine full vs), full. split; [exact H1|]. split; [exact H2|]. left. split; [exact Hl | reflexivity].
+        * destruct (Nat.eq_dec (length vs) (length full)) as [E|E].
+          -- exists (combine full vs), full. split; [exact H1|]. split; [exact H2|]. left. split; [exact E | reflexivity].
+          -- exists [], full. split; [exact H1|]. split; [exact H2|]. right. split; [exact E|].
+             split; [destruct vs; [reflexivity | discriminate] | reflexivity].
+    - intros v g0 Hv.
+      rewrite (err_iff_gen _ _ (fun m => construct_name_iff R rO rI radd rmul rsub ropp A Hwf sym v g0 m Hv)).
+      apply not_iff_compat. unfold ok_grades. split.
+      + intros (m & full & H1 & H2 & _). exists full. split; [exact H1|]. split; [exact H2|]. intros n E. discriminate.
+      + intros (full & H1 & H2 & _). exists (map (fun k => (k, sym k)) full), full. auto.
+    - intros its nm g0 Hne Hv.
+      rewrite (err_iff_gen _ _ (fun m => construct_kw_iff R rO rI radd rmul rsub ropp A Hwf sym its nm g0 m Hne Hv)).
+      apply not_iff_compat. unfold ok_keywords. split.
+      + intros (m & full & H1 & H2 & H3 & H4 & _). exists full. repeat (split; [assumption|]). assumption.
+      + intros (full & H1 & H2 & H3 & H4). exists (kwE its), full. repeat (split; [assumption|]). reflexivity.
+  Qed.
+
+  (* ---------- the convenience constructors are the general constructor with grades= ---------- *)
+  Theorem convenience_constructors inp :
+    multivector O A sym inp = build inp
+    /\ evenmv O A sym inp = build (with_grades (filter Z.even allg) inp)
+    /\ oddmv O A sym inp = build (with_grades (filter Z.odd allg) inp)
+    /\ (forall g, purevector O A sym g inp = build (with_grades [g] inp))
+    /\ scalar O A sym inp = purevector O A sym 0 inp /\ vector O A sym inp = purevector O A sym 1 inp
+    /\ bivector O A sym inp = purevector O A sym 2 inp /\ trivector O A sym inp = purevector O A sym 3 inp
+    /\ quadvector O A sym inp = purevector O A sym 4 inp
+    /\ pseudoscalar O A sym inp = purevector O A sym (Z.of_nat (a_d A)) inp
+    /\ pseudovector O A sym inp = purevector O A sym (Z.of_nat (a_d A) - 1) inp
+    /\ pseudobivector O A sym inp = purevector O A sym (Z.of_nat (a_d A) - 2) inp
+    /\ pseudotrivector O A sym inp = purevector O A sym (Z.of_nat (a_d A) - 3) inp
+    /\ pseudoquadvector O A sym inp = purevector O A sym (Z.of_nat (a_d A) - 4) inp
+    /\ (forall g, g < 0 \/ Z.of_nat (a_d A) < g -> exists e, purevector O A sym g inp = Err e).
+  Proof.
+    repeat (split; [reflexivity|]). split.
+    - unfold pseudoscalar, d_Z. rewrite Z.sub_0_r. reflexivity.
+    - repeat (split; [reflexivity|]).
+      intros g Hg. unfold purevector.
+      apply (err_invalid_grades R rO rI radd rmul rsub ropp A Hwf sym (with_grades [g] inp) [g] eq_refl).
+      left. unfold grade_range_ok. cbn [forallb]. rewrite andb_true_r.
+      destruct Hg as [Hg|Hg].
+      + destruct (Z.leb_spec 0 g); [lia | reflexivity].
+      + destruct (Z.leb_spec g (Z.of_nat (a_d A))); [lia | apply andb_false_r].
+  Qed.
+End ErrorsIff.
+
+(* ====================================================================================== *)
+(** * 9. Examples: non-vacuity, the repaired defects as regressions, the documented exclusions *)
+
+Section Examples.
+  Let A3 : alg := mk_default [1; 1; 1] 1 false.
+  Let G3 : alg := mk_default [1; 1; 1] 1 true.
+  Let symz : Z -> Z := fun k => 1000 + k.
+  Let kw (its : list (name * Z)) : input Z := mkInput VNone None false None its.
+
+  Example ex_wf : wf_alg A3 = true /\ wf_alg G3 = true.
+  Proof. split; vm_compute; reflexivity. Qed.
+
+  (* the hypotheses of the keyword round trip are satisfiable: e231 = 5, e1 = 1 *)
+  Example ex_valid_items : valid_items Z A3 [([2; 3; 1]%nat, 5); ([1]%nat, 1)].
+  Proof.
+    split.
+    - intros n v [E|[E|[]]]; injection E as <- <-.
+      + exists 7. split; [|vm_compute; reflexivity].
+        repeat constructor; cbn [In]; intuition discriminate.
+      + exists 1. split; [|vm_compute; reflexivity]. repeat constructor; cbn [In]; intuition.
+    - vm_compute. repeat constructor; cbn [In]; intuition discriminate.
+  Qed.
+
+  (* an even permutation is re-keyed (was silently dropped), an odd one is negated *)
+  Example ex_keywords :
+    construct Zops A3 symz (kw [([2; 3; 1]%nat, 5); ([1]%nat, 1)]) = Ok [(1, 1); (7, 5)]
+    /\ construct Zops A3 symz (kw [([2; 1]%nat, 2)]) = Ok [(3, -2)]
+    /\ getattr Zops A3 [(3, -2)] (SName [2; 1]%nat) = Ok 2
+    /\ getattr Zops A3 [(3, -2)] (SName [1; 2]%nat) = Ok (-2)
+    /\ getattr Zops A3 [(3, -2)] (SName [1; 3]%nat) = Ok 0.
+  Proof. repeat split; vm_compute; reflexivity. Qed.
+
+  (* the other construction forms *)
+  Example ex_forms :
+    construct Zops A3 symz (mkInput (VList [5; 6]) (Some [KName [1; 2]%nat; KInt 1]) false None []) = Ok [(3, 5); (1, 6)]
+    /\ construct Zops A3 symz (mkInput (VMap [(KInt 3, 1); (KName [1]%nat, 2)]) None false None []) = Ok [(3, 1); (1, 2)]
+    /\ vector Zops A3 symz (mkInput (VList [1; 2; 3]) None false None []) = Ok [(1, 1); (2, 2); (4, 3)]
+    /\ evenmv Zops A3 symz (mkInput VNone None true None []) = Ok [(0, 1000); (3, 1003); (5, 1005); (6, 1006)]
+    /\ asfullmv Zops A3 true [(3, 5); (1, 6)] = Ok [(0, 0); (1, 6); (2, 0); (4, 0); (3, 5); (5, 0); (6, 0); (7, 0)]
+    /\ asfullmv Zops A3 false [(3, 5); (1, 6)] = Ok [(0, 0); (1, 6); (2, 0); (3, 5); (4, 0); (5, 0); (6, 0); (7, 0)].
+  Proof. repeat split; vm_compute; reflexivity. Qed.
+
+  (* the error classes of the inconsistent inputs the property lists *)
+  Example ex_errors :
+    construct Zops A3 symz (mkInput (VList [5]) (Some [KInt 1; KInt 2]) false None []) = Err EType
+    /\ construct Zops A3 symz (mkInput (VList [5]) (Some [KInt 3]) false (Some [1]) []) = Err EValue
+    /\ construct Zops A3 symz (mkInput (VList [5]) None false (Some [4]) []) = Err EValue
+    /\ construct Zops A3 symz (mkInput (VList [1; 2; 3; 4; 5; 6]) None false (Some [2; 1]) []) = Err EKey
+    /\ construct Zops G3 symz (kw [([1; 2]%nat, 2)]) = Err EValue
+    /\ construct Zops G3 symz (mkInput (VList [1; 2; 3]) (Some [KInt 2; KInt 1; KInt 4]) false None []) = Err EValue
+    /\ construct Zops G3 symz (mkInput (VMap [(KInt 3, 1)]) None false None []) = Err EValue
+    /\ construct Zops A3 symz (kw [([4]%nat, 2); ([1]%nat, 1)]) = Err EKey
+    /\ construct Zops A3 symz (kw [([4]%nat, 2)]) = Err EKey
+    /\ construct Zops A3 symz (mkInput (VList [5]) (Some [KName [2; 1]%nat]) false None []) = Err EKey
+    /\ quadvector Zops A3 symz (mkInput (VList [5]) None false None []) = Err EValue.
+  Proof. repeat split; vm_compute; reflexivity. Qed.
+
+  (* regressions of the two repaired _blade2canon defects: a generator spelled with the hex digit e
+     (Algebra(3, start_index=13): edfe is an odd permutation of edef), and a name outside the algebra
+     whose former fallback 'e8' is a real blade (Algebra(3, start_index=6): e5) *)
+  Example ex_blade2canon_regressions :
+    getattr Zops (mk_default [1; 1; 1] 13 false) [(7, 1)] (SName [13; 15; 14]%nat) = Ok (-1)
+    /\ getattr Zops (mk_default [1; 1; 1] 6 false) [(4, 1)] (SName [5]%nat) = Ok 0.
+  Proof. split; vm_compute; reflexivity. Qed.
+
+  (* the documented exclusions are real: without the hypotheses of [roundtrip_keywords] /
+     [reads_back] a supplied coefficient can be lost or attached to another blade *)
+  Example ex_excluded_same_blade_twice :
+    construct Zops A3 symz (kw [([1; 2]%nat, 2); ([2; 1]%nat, 3)]) = Ok [(3, -3)].
+  Proof. vm_compute. reflexivity. Qed.
+
+  Example ex_excluded_repeated_generator :
+    construct Zops A3 symz (kw [([1; 1]%nat, 2)]) = Ok [(1, 2)]
+    /\ construct Zops A3 symz (kw [([1; 2; 1]%nat, 2)]) = Ok [(3, 2)].
+  Proof. split; vm_compute; reflexivity. Qed.
+
+  Example ex_excluded_duplicate_keys :
+    construct Zops A3 symz (mkInput (VList [5; 6]) (Some [KInt 1; KInt 1]) false None []) = Ok [(1, 5); (1, 6)]
+    /\ coeff Zops 1 [(1, 5); (1, 6)] = 5.
+  Proof. split; vm_compute; reflexivity. Qed.
+
+  Example ex_excluded_values_and_keywords :
+    construct Zops A3 symz (mkInput (VList [0; 1; 2; 3; 4; 5; 6; 7]) None false None [([1]%nat, 9)])
+    = Ok [(0, 0); (1, 1); (2, 2); (4, 3); (3, 4); (5, 5); (6, 6); (7, 7)].
+  Proof. vm_compute. reflexivity. Qed.
+End Examples.
